@@ -20,1329 +20,1425 @@ Ltac dmatch :=
   | |- context [match ?x with _ => _ end] => destruct x eqn:?
   | |- context [if ?x then _ else _] => destruct x eqn:?
   end.
-Ltac frame1 := first [reflexivity | congruence | progress autorewrite with fr | progress sproj | dmatch].
-Ltac frame := intros; repeat frame1.
+Ltac osubst :=
+  match goal with
+  | H : _ = OSusp ?x |- _ => apply (f_equal ost) in H; cbn [ost] in H; subst x
+  | H : _ = ODone ?x |- _ => apply (f_equal ost) in H; cbn [ost] in H; subst x
+  | H : _ = ORaise ?x _ |- _ => apply (f_equal ost) in H; cbn [ost] in H; subst x
+  | H : publisher _ _ _ = (?x, _) |- _ => apply (f_equal fst) in H; cbn [fst] in H; subst x
+  end.
 
+Ltac frame1_now := first [osubst | progress autorewrite with fr_now | progress sproj | dmatch | reflexivity | congruence].
+Ltac frame_now := intros; repeat frame1_now.
+Ltac frame1_svcs := first [osubst | progress autorewrite with fr_svcs | progress sproj | dmatch | reflexivity | congruence].
+Ltac frame_svcs := intros; repeat frame1_svcs.
+Ltac frame1_subs := first [osubst | progress autorewrite with fr_subs | progress sproj | dmatch | reflexivity | congruence].
+Ltac frame_subs := intros; repeat frame1_subs.
+Ltac frame1_routed := first [osubst | progress autorewrite with fr_routed | progress sproj | dmatch | reflexivity | congruence].
+Ltac frame_routed := intros; repeat frame1_routed.
+Ltac frame1_avail := first [osubst | progress autorewrite with fr_avail | progress sproj | dmatch | reflexivity | congruence].
+Ltac frame_avail := intros; repeat frame1_avail.
+Ltac frame1_evlog := first [osubst | progress autorewrite with fr_evlog | progress sproj | dmatch | reflexivity | congruence].
+Ltac frame_evlog := intros; repeat frame1_evlog.
+Ltac frame1_rtask := first [osubst | progress autorewrite with fr_rtask | progress sproj | dmatch | reflexivity | congruence].
+Ltac frame_rtask := intros; repeat frame1_rtask.
+Ltac frame1_tasks := first [osubst | progress autorewrite with fr_tasks | progress sproj | dmatch | reflexivity | congruence].
+Ltac frame_tasks := intros; repeat frame1_tasks.
+Ltac frame1_ntasks := first [osubst | progress autorewrite with fr_ntasks | progress sproj | dmatch | reflexivity | congruence].
+Ltac frame_ntasks := intros; repeat frame1_ntasks.
+Ltac frame1_calls := first [osubst | progress autorewrite with fr_calls | progress sproj | dmatch | reflexivity | congruence].
+Ltac frame_calls := intros; repeat frame1_calls.
+Ltac frame1_reqs := first [osubst | progress autorewrite with fr_reqs | progress sproj | dmatch | reflexivity | congruence].
+Ltac frame_reqs := intros; repeat frame1_reqs.
+Ltac frame1_nreqs := first [osubst | progress autorewrite with fr_nreqs | progress sproj | dmatch | reflexivity | congruence].
+Ltac frame_nreqs := intros; repeat frame1_nreqs.
+Ltac frame1_ready := first [osubst | progress autorewrite with fr_ready | progress sproj | dmatch | reflexivity | congruence].
+Ltac frame_ready := intros; repeat frame1_ready.
+Ltac frame1_pub := first [osubst | progress autorewrite with fr_pub | progress sproj | dmatch | reflexivity | congruence].
+Ltac frame_pub := intros; repeat frame1_pub.
+Ltac frame1_nsid := first [osubst | progress autorewrite with fr_nsid | progress sproj | dmatch | reflexivity | congruence].
+Ltac frame_nsid := intros; repeat frame1_nsid.
+Ltac frame1_lapsed := first [osubst | progress autorewrite with fr_lapsed | progress sproj | dmatch | reflexivity | congruence].
+Ltac frame_lapsed := intros; repeat frame1_lapsed.
+Ltac frame1_diverged := first [osubst | progress autorewrite with fr_diverged | progress sproj | dmatch | reflexivity | congruence].
+Ltac frame_diverged := intros; repeat frame1_diverged.
+Ltac frame1_g_overdue := first [osubst | progress autorewrite with fr_g_overdue | progress sproj | dmatch | reflexivity | congruence].
+Ltac frame_g_overdue := intros; repeat frame1_g_overdue.
+Ltac frame1_g_inflight := first [osubst | progress autorewrite with fr_g_inflight | progress sproj | dmatch | reflexivity | congruence].
+Ltac frame_g_inflight := intros; repeat frame1_g_inflight.
+Ltac frame1_g_maxdur := first [osubst | progress autorewrite with fr_g_maxdur | progress sproj | dmatch | reflexivity | congruence].
+Ltac frame_g_maxdur := intros; repeat frame1_g_maxdur.
 Lemma fr_now_finish s t st : now (finish s t st) = now s.
 Proof. intros. unfold finish. destruct (t_kind (tasks s t)); sproj; try reflexivity;
   try (rewrite (fold_left_pres now); [reflexivity | intros; reflexivity]). Qed.
-#[export] Hint Rewrite fr_now_finish : fr.
+#[export] Hint Rewrite fr_now_finish : fr fr_now.
 Lemma fr_svcs_finish s t st : svcs (finish s t st) = svcs s.
 Proof. intros. unfold finish. destruct (t_kind (tasks s t)); sproj; try reflexivity;
   try (rewrite (fold_left_pres svcs); [reflexivity | intros; reflexivity]). Qed.
-#[export] Hint Rewrite fr_svcs_finish : fr.
+#[export] Hint Rewrite fr_svcs_finish : fr fr_svcs.
 Lemma fr_subs_finish s t st : subs (finish s t st) = subs s.
 Proof. intros. unfold finish. destruct (t_kind (tasks s t)); sproj; try reflexivity;
   try (rewrite (fold_left_pres subs); [reflexivity | intros; reflexivity]). Qed.
-#[export] Hint Rewrite fr_subs_finish : fr.
+#[export] Hint Rewrite fr_subs_finish : fr fr_subs.
 Lemma fr_routed_finish s t st : routed (finish s t st) = routed s.
 Proof. intros. unfold finish. destruct (t_kind (tasks s t)); sproj; try reflexivity;
   try (rewrite (fold_left_pres routed); [reflexivity | intros; reflexivity]). Qed.
-#[export] Hint Rewrite fr_routed_finish : fr.
+#[export] Hint Rewrite fr_routed_finish : fr fr_routed.
 Lemma fr_avail_finish s t st : avail (finish s t st) = avail s.
 Proof. intros. unfold finish. destruct (t_kind (tasks s t)); sproj; try reflexivity;
   try (rewrite (fold_left_pres avail); [reflexivity | intros; reflexivity]). Qed.
-#[export] Hint Rewrite fr_avail_finish : fr.
+#[export] Hint Rewrite fr_avail_finish : fr fr_avail.
 Lemma fr_evlog_finish s t st : evlog (finish s t st) = evlog s.
 Proof. intros. unfold finish. destruct (t_kind (tasks s t)); sproj; try reflexivity;
   try (rewrite (fold_left_pres evlog); [reflexivity | intros; reflexivity]). Qed.
-#[export] Hint Rewrite fr_evlog_finish : fr.
+#[export] Hint Rewrite fr_evlog_finish : fr fr_evlog.
 Lemma fr_rtask_finish s t st : rtask (finish s t st) = rtask s.
 Proof. intros. unfold finish. destruct (t_kind (tasks s t)); sproj; try reflexivity;
   try (rewrite (fold_left_pres rtask); [reflexivity | intros; reflexivity]). Qed.
-#[export] Hint Rewrite fr_rtask_finish : fr.
+#[export] Hint Rewrite fr_rtask_finish : fr fr_rtask.
 Lemma fr_ntasks_finish s t st : ntasks (finish s t st) = ntasks s.
 Proof. intros. unfold finish. destruct (t_kind (tasks s t)); sproj; try reflexivity;
   try (rewrite (fold_left_pres ntasks); [reflexivity | intros; reflexivity]). Qed.
-#[export] Hint Rewrite fr_ntasks_finish : fr.
+#[export] Hint Rewrite fr_ntasks_finish : fr fr_ntasks.
 Lemma fr_calls_finish s t st : calls (finish s t st) = calls s.
 Proof. intros. unfold finish. destruct (t_kind (tasks s t)); sproj; try reflexivity;
   try (rewrite (fold_left_pres calls); [reflexivity | intros; reflexivity]). Qed.
-#[export] Hint Rewrite fr_calls_finish : fr.
+#[export] Hint Rewrite fr_calls_finish : fr fr_calls.
 Lemma fr_reqs_finish s t st : reqs (finish s t st) = reqs s.
 Proof. intros. unfold finish. destruct (t_kind (tasks s t)); sproj; try reflexivity;
   try (rewrite (fold_left_pres reqs); [reflexivity | intros; reflexivity]). Qed.
-#[export] Hint Rewrite fr_reqs_finish : fr.
+#[export] Hint Rewrite fr_reqs_finish : fr fr_reqs.
 Lemma fr_nreqs_finish s t st : nreqs (finish s t st) = nreqs s.
 Proof. intros. unfold finish. destruct (t_kind (tasks s t)); sproj; try reflexivity;
   try (rewrite (fold_left_pres nreqs); [reflexivity | intros; reflexivity]). Qed.
-#[export] Hint Rewrite fr_nreqs_finish : fr.
+#[export] Hint Rewrite fr_nreqs_finish : fr fr_nreqs.
 Lemma fr_pub_finish s t st : pub (finish s t st) = pub s.
 Proof. intros. unfold finish. destruct (t_kind (tasks s t)); sproj; try reflexivity;
   try (rewrite (fold_left_pres pub); [reflexivity | intros; reflexivity]). Qed.
-#[export] Hint Rewrite fr_pub_finish : fr.
+#[export] Hint Rewrite fr_pub_finish : fr fr_pub.
 Lemma fr_nsid_finish s t st : nsid (finish s t st) = nsid s.
 Proof. intros. unfold finish. destruct (t_kind (tasks s t)); sproj; try reflexivity;
   try (rewrite (fold_left_pres nsid); [reflexivity | intros; reflexivity]). Qed.
-#[export] Hint Rewrite fr_nsid_finish : fr.
+#[export] Hint Rewrite fr_nsid_finish : fr fr_nsid.
 Lemma fr_lapsed_finish s t st : lapsed (finish s t st) = lapsed s.
 Proof. intros. unfold finish. destruct (t_kind (tasks s t)); sproj; try reflexivity;
   try (rewrite (fold_left_pres lapsed); [reflexivity | intros; reflexivity]). Qed.
-#[export] Hint Rewrite fr_lapsed_finish : fr.
+#[export] Hint Rewrite fr_lapsed_finish : fr fr_lapsed.
 Lemma fr_diverged_finish s t st : diverged (finish s t st) = diverged s.
 Proof. intros. unfold finish. destruct (t_kind (tasks s t)); sproj; try reflexivity;
   try (rewrite (fold_left_pres diverged); [reflexivity | intros; reflexivity]). Qed.
-#[export] Hint Rewrite fr_diverged_finish : fr.
+#[export] Hint Rewrite fr_diverged_finish : fr fr_diverged.
 Lemma fr_g_overdue_finish s t st : g_overdue (finish s t st) = g_overdue s.
 Proof. intros. unfold finish. destruct (t_kind (tasks s t)); sproj; try reflexivity;
   try (rewrite (fold_left_pres g_overdue); [reflexivity | intros; reflexivity]). Qed.
-#[export] Hint Rewrite fr_g_overdue_finish : fr.
+#[export] Hint Rewrite fr_g_overdue_finish : fr fr_g_overdue.
 Lemma fr_g_inflight_finish s t st : g_inflight (finish s t st) = g_inflight s.
 Proof. intros. unfold finish. destruct (t_kind (tasks s t)); sproj; try reflexivity;
   try (rewrite (fold_left_pres g_inflight); [reflexivity | intros; reflexivity]). Qed.
-#[export] Hint Rewrite fr_g_inflight_finish : fr.
+#[export] Hint Rewrite fr_g_inflight_finish : fr fr_g_inflight.
 Lemma fr_g_maxdur_finish s t st : g_maxdur (finish s t st) = g_maxdur s.
 Proof. intros. unfold finish. destruct (t_kind (tasks s t)); sproj; try reflexivity;
   try (rewrite (fold_left_pres g_maxdur); [reflexivity | intros; reflexivity]). Qed.
-#[export] Hint Rewrite fr_g_maxdur_finish : fr.
+#[export] Hint Rewrite fr_g_maxdur_finish : fr fr_g_maxdur.
 Lemma fr_now_throw_cancel s t : now (throw_cancel s t) = now s.
-Proof. intros. unfold throw_cancel. frame. Qed.
-#[export] Hint Rewrite fr_now_throw_cancel : fr.
+Proof. intros. unfold throw_cancel. frame_now. Qed.
+#[export] Hint Rewrite fr_now_throw_cancel : fr fr_now.
 Lemma fr_svcs_throw_cancel s t : svcs (throw_cancel s t) = svcs s.
-Proof. intros. unfold throw_cancel. frame. Qed.
-#[export] Hint Rewrite fr_svcs_throw_cancel : fr.
+Proof. intros. unfold throw_cancel. frame_svcs. Qed.
+#[export] Hint Rewrite fr_svcs_throw_cancel : fr fr_svcs.
 Lemma fr_subs_throw_cancel s t : subs (throw_cancel s t) = subs s.
-Proof. intros. unfold throw_cancel. frame. Qed.
-#[export] Hint Rewrite fr_subs_throw_cancel : fr.
+Proof. intros. unfold throw_cancel. frame_subs. Qed.
+#[export] Hint Rewrite fr_subs_throw_cancel : fr fr_subs.
 Lemma fr_routed_throw_cancel s t : routed (throw_cancel s t) = routed s.
-Proof. intros. unfold throw_cancel. frame. Qed.
-#[export] Hint Rewrite fr_routed_throw_cancel : fr.
+Proof. intros. unfold throw_cancel. frame_routed. Qed.
+#[export] Hint Rewrite fr_routed_throw_cancel : fr fr_routed.
 Lemma fr_avail_throw_cancel s t : avail (throw_cancel s t) = avail s.
-Proof. intros. unfold throw_cancel. frame. Qed.
-#[export] Hint Rewrite fr_avail_throw_cancel : fr.
+Proof. intros. unfold throw_cancel. frame_avail. Qed.
+#[export] Hint Rewrite fr_avail_throw_cancel : fr fr_avail.
 Lemma fr_evlog_throw_cancel s t : evlog (throw_cancel s t) = evlog s.
-Proof. intros. unfold throw_cancel. frame. Qed.
-#[export] Hint Rewrite fr_evlog_throw_cancel : fr.
+Proof. intros. unfold throw_cancel. frame_evlog. Qed.
+#[export] Hint Rewrite fr_evlog_throw_cancel : fr fr_evlog.
 Lemma fr_rtask_throw_cancel s t : rtask (throw_cancel s t) = rtask s.
-Proof. intros. unfold throw_cancel. frame. Qed.
-#[export] Hint Rewrite fr_rtask_throw_cancel : fr.
+Proof. intros. unfold throw_cancel. frame_rtask. Qed.
+#[export] Hint Rewrite fr_rtask_throw_cancel : fr fr_rtask.
 Lemma fr_ntasks_throw_cancel s t : ntasks (throw_cancel s t) = ntasks s.
-Proof. intros. unfold throw_cancel. frame. Qed.
-#[export] Hint Rewrite fr_ntasks_throw_cancel : fr.
+Proof. intros. unfold throw_cancel. frame_ntasks. Qed.
+#[export] Hint Rewrite fr_ntasks_throw_cancel : fr fr_ntasks.
 Lemma fr_calls_throw_cancel s t : calls (throw_cancel s t) = calls s.
-Proof. intros. unfold throw_cancel. frame. Qed.
-#[export] Hint Rewrite fr_calls_throw_cancel : fr.
+Proof. intros. unfold throw_cancel. frame_calls. Qed.
+#[export] Hint Rewrite fr_calls_throw_cancel : fr fr_calls.
 Lemma fr_reqs_throw_cancel s t : reqs (throw_cancel s t) = reqs s.
-Proof. intros. unfold throw_cancel. frame. Qed.
-#[export] Hint Rewrite fr_reqs_throw_cancel : fr.
+Proof. intros. unfold throw_cancel. frame_reqs. Qed.
+#[export] Hint Rewrite fr_reqs_throw_cancel : fr fr_reqs.
 Lemma fr_nreqs_throw_cancel s t : nreqs (throw_cancel s t) = nreqs s.
-Proof. intros. unfold throw_cancel. frame. Qed.
-#[export] Hint Rewrite fr_nreqs_throw_cancel : fr.
+Proof. intros. unfold throw_cancel. frame_nreqs. Qed.
+#[export] Hint Rewrite fr_nreqs_throw_cancel : fr fr_nreqs.
 Lemma fr_pub_throw_cancel s t : pub (throw_cancel s t) = pub s.
-Proof. intros. unfold throw_cancel. frame. Qed.
-#[export] Hint Rewrite fr_pub_throw_cancel : fr.
+Proof. intros. unfold throw_cancel. frame_pub. Qed.
+#[export] Hint Rewrite fr_pub_throw_cancel : fr fr_pub.
 Lemma fr_nsid_throw_cancel s t : nsid (throw_cancel s t) = nsid s.
-Proof. intros. unfold throw_cancel. frame. Qed.
-#[export] Hint Rewrite fr_nsid_throw_cancel : fr.
+Proof. intros. unfold throw_cancel. frame_nsid. Qed.
+#[export] Hint Rewrite fr_nsid_throw_cancel : fr fr_nsid.
 Lemma fr_lapsed_throw_cancel s t : lapsed (throw_cancel s t) = lapsed s.
-Proof. intros. unfold throw_cancel. frame. Qed.
-#[export] Hint Rewrite fr_lapsed_throw_cancel : fr.
+Proof. intros. unfold throw_cancel. frame_lapsed. Qed.
+#[export] Hint Rewrite fr_lapsed_throw_cancel : fr fr_lapsed.
 Lemma fr_diverged_throw_cancel s t : diverged (throw_cancel s t) = diverged s.
-Proof. intros. unfold throw_cancel. frame. Qed.
-#[export] Hint Rewrite fr_diverged_throw_cancel : fr.
+Proof. intros. unfold throw_cancel. frame_diverged. Qed.
+#[export] Hint Rewrite fr_diverged_throw_cancel : fr fr_diverged.
 Lemma fr_g_overdue_throw_cancel s t : g_overdue (throw_cancel s t) = g_overdue s.
-Proof. intros. unfold throw_cancel. frame. Qed.
-#[export] Hint Rewrite fr_g_overdue_throw_cancel : fr.
+Proof. intros. unfold throw_cancel. frame_g_overdue. Qed.
+#[export] Hint Rewrite fr_g_overdue_throw_cancel : fr fr_g_overdue.
 Lemma fr_g_inflight_throw_cancel s t : g_inflight (throw_cancel s t) = g_inflight s.
-Proof. intros. unfold throw_cancel. frame. Qed.
-#[export] Hint Rewrite fr_g_inflight_throw_cancel : fr.
+Proof. intros. unfold throw_cancel. frame_g_inflight. Qed.
+#[export] Hint Rewrite fr_g_inflight_throw_cancel : fr fr_g_inflight.
 Lemma fr_g_maxdur_throw_cancel s t : g_maxdur (throw_cancel s t) = g_maxdur s.
-Proof. intros. unfold throw_cancel. frame. Qed.
-#[export] Hint Rewrite fr_g_maxdur_throw_cancel : fr.
+Proof. intros. unfold throw_cancel. frame_g_maxdur. Qed.
+#[export] Hint Rewrite fr_g_maxdur_throw_cancel : fr fr_g_maxdur.
 Lemma fr_now_spawn s kd : now (spawn s kd) = now s.
-Proof. intros. unfold spawn. frame. Qed.
-#[export] Hint Rewrite fr_now_spawn : fr.
+Proof. intros. unfold spawn. frame_now. Qed.
+#[export] Hint Rewrite fr_now_spawn : fr fr_now.
 Lemma fr_svcs_spawn s kd : svcs (spawn s kd) = svcs s.
-Proof. intros. unfold spawn. frame. Qed.
-#[export] Hint Rewrite fr_svcs_spawn : fr.
+Proof. intros. unfold spawn. frame_svcs. Qed.
+#[export] Hint Rewrite fr_svcs_spawn : fr fr_svcs.
 Lemma fr_subs_spawn s kd : subs (spawn s kd) = subs s.
-Proof. intros. unfold spawn. frame. Qed.
-#[export] Hint Rewrite fr_subs_spawn : fr.
+Proof. intros. unfold spawn. frame_subs. Qed.
+#[export] Hint Rewrite fr_subs_spawn : fr fr_subs.
 Lemma fr_routed_spawn s kd : routed (spawn s kd) = routed s.
-Proof. intros. unfold spawn. frame. Qed.
-#[export] Hint Rewrite fr_routed_spawn : fr.
+Proof. intros. unfold spawn. frame_routed. Qed.
+#[export] Hint Rewrite fr_routed_spawn : fr fr_routed.
 Lemma fr_avail_spawn s kd : avail (spawn s kd) = avail s.
-Proof. intros. unfold spawn. frame. Qed.
-#[export] Hint Rewrite fr_avail_spawn : fr.
+Proof. intros. unfold spawn. frame_avail. Qed.
+#[export] Hint Rewrite fr_avail_spawn : fr fr_avail.
 Lemma fr_evlog_spawn s kd : evlog (spawn s kd) = evlog s.
-Proof. intros. unfold spawn. frame. Qed.
-#[export] Hint Rewrite fr_evlog_spawn : fr.
+Proof. intros. unfold spawn. frame_evlog. Qed.
+#[export] Hint Rewrite fr_evlog_spawn : fr fr_evlog.
 Lemma fr_rtask_spawn s kd : rtask (spawn s kd) = rtask s.
-Proof. intros. unfold spawn. frame. Qed.
-#[export] Hint Rewrite fr_rtask_spawn : fr.
+Proof. intros. unfold spawn. frame_rtask. Qed.
+#[export] Hint Rewrite fr_rtask_spawn : fr fr_rtask.
 Lemma fr_calls_spawn s kd : calls (spawn s kd) = calls s.
-Proof. intros. unfold spawn. frame. Qed.
-#[export] Hint Rewrite fr_calls_spawn : fr.
+Proof. intros. unfold spawn. frame_calls. Qed.
+#[export] Hint Rewrite fr_calls_spawn : fr fr_calls.
 Lemma fr_reqs_spawn s kd : reqs (spawn s kd) = reqs s.
-Proof. intros. unfold spawn. frame. Qed.
-#[export] Hint Rewrite fr_reqs_spawn : fr.
+Proof. intros. unfold spawn. frame_reqs. Qed.
+#[export] Hint Rewrite fr_reqs_spawn : fr fr_reqs.
 Lemma fr_nreqs_spawn s kd : nreqs (spawn s kd) = nreqs s.
-Proof. intros. unfold spawn. frame. Qed.
-#[export] Hint Rewrite fr_nreqs_spawn : fr.
+Proof. intros. unfold spawn. frame_nreqs. Qed.
+#[export] Hint Rewrite fr_nreqs_spawn : fr fr_nreqs.
 Lemma fr_pub_spawn s kd : pub (spawn s kd) = pub s.
-Proof. intros. unfold spawn. frame. Qed.
-#[export] Hint Rewrite fr_pub_spawn : fr.
+Proof. intros. unfold spawn. frame_pub. Qed.
+#[export] Hint Rewrite fr_pub_spawn : fr fr_pub.
 Lemma fr_nsid_spawn s kd : nsid (spawn s kd) = nsid s.
-Proof. intros. unfold spawn. frame. Qed.
-#[export] Hint Rewrite fr_nsid_spawn : fr.
+Proof. intros. unfold spawn. frame_nsid. Qed.
+#[export] Hint Rewrite fr_nsid_spawn : fr fr_nsid.
 Lemma fr_lapsed_spawn s kd : lapsed (spawn s kd) = lapsed s.
-Proof. intros. unfold spawn. frame. Qed.
-#[export] Hint Rewrite fr_lapsed_spawn : fr.
+Proof. intros. unfold spawn. frame_lapsed. Qed.
+#[export] Hint Rewrite fr_lapsed_spawn : fr fr_lapsed.
 Lemma fr_diverged_spawn s kd : diverged (spawn s kd) = diverged s.
-Proof. intros. unfold spawn. frame. Qed.
-#[export] Hint Rewrite fr_diverged_spawn : fr.
+Proof. intros. unfold spawn. frame_diverged. Qed.
+#[export] Hint Rewrite fr_diverged_spawn : fr fr_diverged.
 Lemma fr_g_overdue_spawn s kd : g_overdue (spawn s kd) = g_overdue s.
-Proof. intros. unfold spawn. frame. Qed.
-#[export] Hint Rewrite fr_g_overdue_spawn : fr.
+Proof. intros. unfold spawn. frame_g_overdue. Qed.
+#[export] Hint Rewrite fr_g_overdue_spawn : fr fr_g_overdue.
 Lemma fr_g_inflight_spawn s kd : g_inflight (spawn s kd) = g_inflight s.
-Proof. intros. unfold spawn. frame. Qed.
-#[export] Hint Rewrite fr_g_inflight_spawn : fr.
+Proof. intros. unfold spawn. frame_g_inflight. Qed.
+#[export] Hint Rewrite fr_g_inflight_spawn : fr fr_g_inflight.
 Lemma fr_g_maxdur_spawn s kd : g_maxdur (spawn s kd) = g_maxdur s.
-Proof. intros. unfold spawn. frame. Qed.
-#[export] Hint Rewrite fr_g_maxdur_spawn : fr.
+Proof. intros. unfold spawn. frame_g_maxdur. Qed.
+#[export] Hint Rewrite fr_g_maxdur_spawn : fr fr_g_maxdur.
 Lemma fr_now_issue s t kd v x : now (issue s t kd v x) = now s.
-Proof. intros. unfold issue. frame. Qed.
-#[export] Hint Rewrite fr_now_issue : fr.
+Proof. intros. unfold issue. frame_now. Qed.
+#[export] Hint Rewrite fr_now_issue : fr fr_now.
 Lemma fr_svcs_issue s t kd v x : svcs (issue s t kd v x) = svcs s.
-Proof. intros. unfold issue. frame. Qed.
-#[export] Hint Rewrite fr_svcs_issue : fr.
+Proof. intros. unfold issue. frame_svcs. Qed.
+#[export] Hint Rewrite fr_svcs_issue : fr fr_svcs.
 Lemma fr_subs_issue s t kd v x : subs (issue s t kd v x) = subs s.
-Proof. intros. unfold issue. frame. Qed.
-#[export] Hint Rewrite fr_subs_issue : fr.
+Proof. intros. unfold issue. frame_subs. Qed.
+#[export] Hint Rewrite fr_subs_issue : fr fr_subs.
 Lemma fr_routed_issue s t kd v x : routed (issue s t kd v x) = routed s.
-Proof. intros. unfold issue. frame. Qed.
-#[export] Hint Rewrite fr_routed_issue : fr.
+Proof. intros. unfold issue. frame_routed. Qed.
+#[export] Hint Rewrite fr_routed_issue : fr fr_routed.
 Lemma fr_avail_issue s t kd v x : avail (issue s t kd v x) = avail s.
-Proof. intros. unfold issue. frame. Qed.
-#[export] Hint Rewrite fr_avail_issue : fr.
+Proof. intros. unfold issue. frame_avail. Qed.
+#[export] Hint Rewrite fr_avail_issue : fr fr_avail.
 Lemma fr_evlog_issue s t kd v x : evlog (issue s t kd v x) = evlog s.
-Proof. intros. unfold issue. frame. Qed.
-#[export] Hint Rewrite fr_evlog_issue : fr.
+Proof. intros. unfold issue. frame_evlog. Qed.
+#[export] Hint Rewrite fr_evlog_issue : fr fr_evlog.
 Lemma fr_rtask_issue s t kd v x : rtask (issue s t kd v x) = rtask s.
-Proof. intros. unfold issue. frame. Qed.
-#[export] Hint Rewrite fr_rtask_issue : fr.
+Proof. intros. unfold issue. frame_rtask. Qed.
+#[export] Hint Rewrite fr_rtask_issue : fr fr_rtask.
 Lemma fr_tasks_issue s t kd v x : tasks (issue s t kd v x) = tasks s.
-Proof. intros. unfold issue. frame. Qed.
-#[export] Hint Rewrite fr_tasks_issue : fr.
+Proof. intros. unfold issue. frame_tasks. Qed.
+#[export] Hint Rewrite fr_tasks_issue : fr fr_tasks.
 Lemma fr_ntasks_issue s t kd v x : ntasks (issue s t kd v x) = ntasks s.
-Proof. intros. unfold issue. frame. Qed.
-#[export] Hint Rewrite fr_ntasks_issue : fr.
+Proof. intros. unfold issue. frame_ntasks. Qed.
+#[export] Hint Rewrite fr_ntasks_issue : fr fr_ntasks.
 Lemma fr_calls_issue s t kd v x : calls (issue s t kd v x) = calls s.
-Proof. intros. unfold issue. frame. Qed.
-#[export] Hint Rewrite fr_calls_issue : fr.
+Proof. intros. unfold issue. frame_calls. Qed.
+#[export] Hint Rewrite fr_calls_issue : fr fr_calls.
 Lemma fr_ready_issue s t kd v x : ready (issue s t kd v x) = ready s.
-Proof. intros. unfold issue. frame. Qed.
-#[export] Hint Rewrite fr_ready_issue : fr.
+Proof. intros. unfold issue. frame_ready. Qed.
+#[export] Hint Rewrite fr_ready_issue : fr fr_ready.
 Lemma fr_pub_issue s t kd v x : pub (issue s t kd v x) = pub s.
-Proof. intros. unfold issue. frame. Qed.
-#[export] Hint Rewrite fr_pub_issue : fr.
+Proof. intros. unfold issue. frame_pub. Qed.
+#[export] Hint Rewrite fr_pub_issue : fr fr_pub.
 Lemma fr_nsid_issue s t kd v x : nsid (issue s t kd v x) = nsid s.
-Proof. intros. unfold issue. frame. Qed.
-#[export] Hint Rewrite fr_nsid_issue : fr.
+Proof. intros. unfold issue. frame_nsid. Qed.
+#[export] Hint Rewrite fr_nsid_issue : fr fr_nsid.
 Lemma fr_lapsed_issue s t kd v x : lapsed (issue s t kd v x) = lapsed s.
-Proof. intros. unfold issue. frame. Qed.
-#[export] Hint Rewrite fr_lapsed_issue : fr.
+Proof. intros. unfold issue. frame_lapsed. Qed.
+#[export] Hint Rewrite fr_lapsed_issue : fr fr_lapsed.
 Lemma fr_diverged_issue s t kd v x : diverged (issue s t kd v x) = diverged s.
-Proof. intros. unfold issue. frame. Qed.
-#[export] Hint Rewrite fr_diverged_issue : fr.
+Proof. intros. unfold issue. frame_diverged. Qed.
+#[export] Hint Rewrite fr_diverged_issue : fr fr_diverged.
 Lemma fr_g_overdue_issue s t kd v x : g_overdue (issue s t kd v x) = g_overdue s.
-Proof. intros. unfold issue. frame. Qed.
-#[export] Hint Rewrite fr_g_overdue_issue : fr.
+Proof. intros. unfold issue. frame_g_overdue. Qed.
+#[export] Hint Rewrite fr_g_overdue_issue : fr fr_g_overdue.
 Lemma fr_g_inflight_issue s t kd v x : g_inflight (issue s t kd v x) = g_inflight s.
-Proof. intros. unfold issue. frame. Qed.
-#[export] Hint Rewrite fr_g_inflight_issue : fr.
+Proof. intros. unfold issue. frame_g_inflight. Qed.
+#[export] Hint Rewrite fr_g_inflight_issue : fr fr_g_inflight.
 Lemma fr_g_maxdur_issue s t kd v x : g_maxdur (issue s t kd v x) = g_maxdur s.
-Proof. intros. unfold issue. frame. Qed.
-#[export] Hint Rewrite fr_g_maxdur_issue : fr.
+Proof. intros. unfold issue. frame_g_maxdur. Qed.
+#[export] Hint Rewrite fr_g_maxdur_issue : fr fr_g_maxdur.
 Lemma fr_now_cancel s t : now (cancel s t) = now s.
-Proof. intros. unfold cancel. frame. Qed.
-#[export] Hint Rewrite fr_now_cancel : fr.
+Proof. intros. unfold cancel. frame_now. Qed.
+#[export] Hint Rewrite fr_now_cancel : fr fr_now.
 Lemma fr_svcs_cancel s t : svcs (cancel s t) = svcs s.
-Proof. intros. unfold cancel. frame. Qed.
-#[export] Hint Rewrite fr_svcs_cancel : fr.
+Proof. intros. unfold cancel. frame_svcs. Qed.
+#[export] Hint Rewrite fr_svcs_cancel : fr fr_svcs.
 Lemma fr_subs_cancel s t : subs (cancel s t) = subs s.
-Proof. intros. unfold cancel. frame. Qed.
-#[export] Hint Rewrite fr_subs_cancel : fr.
+Proof. intros. unfold cancel. frame_subs. Qed.
+#[export] Hint Rewrite fr_subs_cancel : fr fr_subs.
 Lemma fr_routed_cancel s t : routed (cancel s t) = routed s.
-Proof. intros. unfold cancel. frame. Qed.
-#[export] Hint Rewrite fr_routed_cancel : fr.
+Proof. intros. unfold cancel. frame_routed. Qed.
+#[export] Hint Rewrite fr_routed_cancel : fr fr_routed.
 Lemma fr_avail_cancel s t : avail (cancel s t) = avail s.
-Proof. intros. unfold cancel. frame. Qed.
-#[export] Hint Rewrite fr_avail_cancel : fr.
+Proof. intros. unfold cancel. frame_avail. Qed.
+#[export] Hint Rewrite fr_avail_cancel : fr fr_avail.
 Lemma fr_evlog_cancel s t : evlog (cancel s t) = evlog s.
-Proof. intros. unfold cancel. frame. Qed.
-#[export] Hint Rewrite fr_evlog_cancel : fr.
+Proof. intros. unfold cancel. frame_evlog. Qed.
+#[export] Hint Rewrite fr_evlog_cancel : fr fr_evlog.
 Lemma fr_rtask_cancel s t : rtask (cancel s t) = rtask s.
-Proof. intros. unfold cancel. frame. Qed.
-#[export] Hint Rewrite fr_rtask_cancel : fr.
+Proof. intros. unfold cancel. frame_rtask. Qed.
+#[export] Hint Rewrite fr_rtask_cancel : fr fr_rtask.
 Lemma fr_ntasks_cancel s t : ntasks (cancel s t) = ntasks s.
-Proof. intros. unfold cancel. frame. Qed.
-#[export] Hint Rewrite fr_ntasks_cancel : fr.
+Proof. intros. unfold cancel. frame_ntasks. Qed.
+#[export] Hint Rewrite fr_ntasks_cancel : fr fr_ntasks.
 Lemma fr_calls_cancel s t : calls (cancel s t) = calls s.
-Proof. intros. unfold cancel. frame. Qed.
-#[export] Hint Rewrite fr_calls_cancel : fr.
+Proof. intros. unfold cancel. frame_calls. Qed.
+#[export] Hint Rewrite fr_calls_cancel : fr fr_calls.
 Lemma fr_nreqs_cancel s t : nreqs (cancel s t) = nreqs s.
-Proof. intros. unfold cancel. frame. Qed.
-#[export] Hint Rewrite fr_nreqs_cancel : fr.
+Proof. intros. unfold cancel. frame_nreqs. Qed.
+#[export] Hint Rewrite fr_nreqs_cancel : fr fr_nreqs.
 Lemma fr_pub_cancel s t : pub (cancel s t) = pub s.
-Proof. intros. unfold cancel. frame. Qed.
-#[export] Hint Rewrite fr_pub_cancel : fr.
+Proof. intros. unfold cancel. frame_pub. Qed.
+#[export] Hint Rewrite fr_pub_cancel : fr fr_pub.
 Lemma fr_nsid_cancel s t : nsid (cancel s t) = nsid s.
-Proof. intros. unfold cancel. frame. Qed.
-#[export] Hint Rewrite fr_nsid_cancel : fr.
+Proof. intros. unfold cancel. frame_nsid. Qed.
+#[export] Hint Rewrite fr_nsid_cancel : fr fr_nsid.
 Lemma fr_lapsed_cancel s t : lapsed (cancel s t) = lapsed s.
-Proof. intros. unfold cancel. frame. Qed.
-#[export] Hint Rewrite fr_lapsed_cancel : fr.
+Proof. intros. unfold cancel. frame_lapsed. Qed.
+#[export] Hint Rewrite fr_lapsed_cancel : fr fr_lapsed.
 Lemma fr_diverged_cancel s t : diverged (cancel s t) = diverged s.
-Proof. intros. unfold cancel. frame. Qed.
-#[export] Hint Rewrite fr_diverged_cancel : fr.
+Proof. intros. unfold cancel. frame_diverged. Qed.
+#[export] Hint Rewrite fr_diverged_cancel : fr fr_diverged.
 Lemma fr_g_overdue_cancel s t : g_overdue (cancel s t) = g_overdue s.
-Proof. intros. unfold cancel. frame. Qed.
-#[export] Hint Rewrite fr_g_overdue_cancel : fr.
+Proof. intros. unfold cancel. frame_g_overdue. Qed.
+#[export] Hint Rewrite fr_g_overdue_cancel : fr fr_g_overdue.
 Lemma fr_g_inflight_cancel s t : g_inflight (cancel s t) = g_inflight s.
-Proof. intros. unfold cancel. frame. Qed.
-#[export] Hint Rewrite fr_g_inflight_cancel : fr.
+Proof. intros. unfold cancel. frame_g_inflight. Qed.
+#[export] Hint Rewrite fr_g_inflight_cancel : fr fr_g_inflight.
 Lemma fr_g_maxdur_cancel s t : g_maxdur (cancel s t) = g_maxdur s.
-Proof. intros. unfold cancel. frame. Qed.
-#[export] Hint Rewrite fr_g_maxdur_cancel : fr.
+Proof. intros. unfold cancel. frame_g_maxdur. Qed.
+#[export] Hint Rewrite fr_g_maxdur_cancel : fr fr_g_maxdur.
 Lemma fr_now_unsub_return s t re : now (unsub_return s t re) = now s.
-Proof. intros. unfold unsub_return. frame. Qed.
-#[export] Hint Rewrite fr_now_unsub_return : fr.
+Proof. intros. unfold unsub_return. frame_now. Qed.
+#[export] Hint Rewrite fr_now_unsub_return : fr fr_now.
 Lemma fr_svcs_unsub_return s t re : svcs (unsub_return s t re) = svcs s.
-Proof. intros. unfold unsub_return. frame. Qed.
-#[export] Hint Rewrite fr_svcs_unsub_return : fr.
+Proof. intros. unfold unsub_return. frame_svcs. Qed.
+#[export] Hint Rewrite fr_svcs_unsub_return : fr fr_svcs.
 Lemma fr_subs_unsub_return s t re : subs (unsub_return s t re) = subs s.
-Proof. intros. unfold unsub_return. frame. Qed.
-#[export] Hint Rewrite fr_subs_unsub_return : fr.
+Proof. intros. unfold unsub_return. frame_subs. Qed.
+#[export] Hint Rewrite fr_subs_unsub_return : fr fr_subs.
 Lemma fr_routed_unsub_return s t re : routed (unsub_return s t re) = routed s.
-Proof. intros. unfold unsub_return. frame. Qed.
-#[export] Hint Rewrite fr_routed_unsub_return : fr.
+Proof. intros. unfold unsub_return. frame_routed. Qed.
+#[export] Hint Rewrite fr_routed_unsub_return : fr fr_routed.
 Lemma fr_avail_unsub_return s t re : avail (unsub_return s t re) = avail s.
-Proof. intros. unfold unsub_return. frame. Qed.
-#[export] Hint Rewrite fr_avail_unsub_return : fr.
+Proof. intros. unfold unsub_return. frame_avail. Qed.
+#[export] Hint Rewrite fr_avail_unsub_return : fr fr_avail.
 Lemma fr_evlog_unsub_return s t re : evlog (unsub_return s t re) = evlog s.
-Proof. intros. unfold unsub_return. frame. Qed.
-#[export] Hint Rewrite fr_evlog_unsub_return : fr.
+Proof. intros. unfold unsub_return. frame_evlog. Qed.
+#[export] Hint Rewrite fr_evlog_unsub_return : fr fr_evlog.
 Lemma fr_rtask_unsub_return s t re : rtask (unsub_return s t re) = rtask s.
-Proof. intros. unfold unsub_return. frame. Qed.
-#[export] Hint Rewrite fr_rtask_unsub_return : fr.
+Proof. intros. unfold unsub_return. frame_rtask. Qed.
+#[export] Hint Rewrite fr_rtask_unsub_return : fr fr_rtask.
 Lemma fr_ntasks_unsub_return s t re : ntasks (unsub_return s t re) = ntasks s.
-Proof. intros. unfold unsub_return. frame. Qed.
-#[export] Hint Rewrite fr_ntasks_unsub_return : fr.
+Proof. intros. unfold unsub_return. frame_ntasks. Qed.
+#[export] Hint Rewrite fr_ntasks_unsub_return : fr fr_ntasks.
 Lemma fr_calls_unsub_return s t re : calls (unsub_return s t re) = calls s.
-Proof. intros. unfold unsub_return. frame. Qed.
-#[export] Hint Rewrite fr_calls_unsub_return : fr.
+Proof. intros. unfold unsub_return. frame_calls. Qed.
+#[export] Hint Rewrite fr_calls_unsub_return : fr fr_calls.
 Lemma fr_reqs_unsub_return s t re : reqs (unsub_return s t re) = reqs s.
-Proof. intros. unfold unsub_return. frame. Qed.
-#[export] Hint Rewrite fr_reqs_unsub_return : fr.
+Proof. intros. unfold unsub_return. frame_reqs. Qed.
+#[export] Hint Rewrite fr_reqs_unsub_return : fr fr_reqs.
 Lemma fr_nreqs_unsub_return s t re : nreqs (unsub_return s t re) = nreqs s.
-Proof. intros. unfold unsub_return. frame. Qed.
-#[export] Hint Rewrite fr_nreqs_unsub_return : fr.
+Proof. intros. unfold unsub_return. frame_nreqs. Qed.
+#[export] Hint Rewrite fr_nreqs_unsub_return : fr fr_nreqs.
 Lemma fr_pub_unsub_return s t re : pub (unsub_return s t re) = pub s.
-Proof. intros. unfold unsub_return. frame. Qed.
-#[export] Hint Rewrite fr_pub_unsub_return : fr.
+Proof. intros. unfold unsub_return. frame_pub. Qed.
+#[export] Hint Rewrite fr_pub_unsub_return : fr fr_pub.
 Lemma fr_nsid_unsub_return s t re : nsid (unsub_return s t re) = nsid s.
-Proof. intros. unfold unsub_return. frame. Qed.
-#[export] Hint Rewrite fr_nsid_unsub_return : fr.
+Proof. intros. unfold unsub_return. frame_nsid. Qed.
+#[export] Hint Rewrite fr_nsid_unsub_return : fr fr_nsid.
 Lemma fr_lapsed_unsub_return s t re : lapsed (unsub_return s t re) = lapsed s.
-Proof. intros. unfold unsub_return. frame. Qed.
-#[export] Hint Rewrite fr_lapsed_unsub_return : fr.
+Proof. intros. unfold unsub_return. frame_lapsed. Qed.
+#[export] Hint Rewrite fr_lapsed_unsub_return : fr fr_lapsed.
 Lemma fr_diverged_unsub_return s t re : diverged (unsub_return s t re) = diverged s.
-Proof. intros. unfold unsub_return. frame. Qed.
-#[export] Hint Rewrite fr_diverged_unsub_return : fr.
+Proof. intros. unfold unsub_return. frame_diverged. Qed.
+#[export] Hint Rewrite fr_diverged_unsub_return : fr fr_diverged.
 Lemma fr_g_overdue_unsub_return s t re : g_overdue (unsub_return s t re) = g_overdue s.
-Proof. intros. unfold unsub_return. frame. Qed.
-#[export] Hint Rewrite fr_g_overdue_unsub_return : fr.
+Proof. intros. unfold unsub_return. frame_g_overdue. Qed.
+#[export] Hint Rewrite fr_g_overdue_unsub_return : fr fr_g_overdue.
 Lemma fr_g_inflight_unsub_return s t re : g_inflight (unsub_return s t re) = g_inflight s.
-Proof. intros. unfold unsub_return. frame. Qed.
-#[export] Hint Rewrite fr_g_inflight_unsub_return : fr.
+Proof. intros. unfold unsub_return. frame_g_inflight. Qed.
+#[export] Hint Rewrite fr_g_inflight_unsub_return : fr fr_g_inflight.
 Lemma fr_g_maxdur_unsub_return s t re : g_maxdur (unsub_return s t re) = g_maxdur s.
-Proof. intros. unfold unsub_return. frame. Qed.
-#[export] Hint Rewrite fr_g_maxdur_unsub_return : fr.
+Proof. intros. unfold unsub_return. frame_g_maxdur. Qed.
+#[export] Hint Rewrite fr_g_maxdur_unsub_return : fr fr_g_maxdur.
 Lemma fr_now_unsub_gather s t sids re : now (unsub_gather s t sids re) = now s.
-Proof. intros. unfold unsub_gather. destruct sids; [frame|]. sproj.
-  rewrite (fold_left_pres now); [reflexivity | intros; frame]. Qed.
-#[export] Hint Rewrite fr_now_unsub_gather : fr.
+Proof. intros. unfold unsub_gather. destruct sids; [frame_now|]. sproj.
+  rewrite (fold_left_pres now); [reflexivity | intros; frame_now]. Qed.
+#[export] Hint Rewrite fr_now_unsub_gather : fr fr_now.
 Lemma fr_svcs_unsub_gather s t sids re : svcs (unsub_gather s t sids re) = svcs s.
-Proof. intros. unfold unsub_gather. destruct sids; [frame|]. sproj.
-  rewrite (fold_left_pres svcs); [reflexivity | intros; frame]. Qed.
-#[export] Hint Rewrite fr_svcs_unsub_gather : fr.
+Proof. intros. unfold unsub_gather. destruct sids; [frame_svcs|]. sproj.
+  rewrite (fold_left_pres svcs); [reflexivity | intros; frame_svcs]. Qed.
+#[export] Hint Rewrite fr_svcs_unsub_gather : fr fr_svcs.
 Lemma fr_subs_unsub_gather s t sids re : subs (unsub_gather s t sids re) = subs s.
-Proof. intros. unfold unsub_gather. destruct sids; [frame|]. sproj.
-  rewrite (fold_left_pres subs); [reflexivity | intros; frame]. Qed.
-#[export] Hint Rewrite fr_subs_unsub_gather : fr.
+Proof. intros. unfold unsub_gather. destruct sids; [frame_subs|]. sproj.
+  rewrite (fold_left_pres subs); [reflexivity | intros; frame_subs]. Qed.
+#[export] Hint Rewrite fr_subs_unsub_gather : fr fr_subs.
 Lemma fr_routed_unsub_gather s t sids re : routed (unsub_gather s t sids re) = routed s.
-Proof. intros. unfold unsub_gather. destruct sids; [frame|]. sproj.
-  rewrite (fold_left_pres routed); [reflexivity | intros; frame]. Qed.
-#[export] Hint Rewrite fr_routed_unsub_gather : fr.
+Proof. intros. unfold unsub_gather. destruct sids; [frame_routed|]. sproj.
+  rewrite (fold_left_pres routed); [reflexivity | intros; frame_routed]. Qed.
+#[export] Hint Rewrite fr_routed_unsub_gather : fr fr_routed.
 Lemma fr_avail_unsub_gather s t sids re : avail (unsub_gather s t sids re) = avail s.
-Proof. intros. unfold unsub_gather. destruct sids; [frame|]. sproj.
-  rewrite (fold_left_pres avail); [reflexivity | intros; frame]. Qed.
-#[export] Hint Rewrite fr_avail_unsub_gather : fr.
+Proof. intros. unfold unsub_gather. destruct sids; [frame_avail|]. sproj.
+  rewrite (fold_left_pres avail); [reflexivity | intros; frame_avail]. Qed.
+#[export] Hint Rewrite fr_avail_unsub_gather : fr fr_avail.
 Lemma fr_evlog_unsub_gather s t sids re : evlog (unsub_gather s t sids re) = evlog s.
-Proof. intros. unfold unsub_gather. destruct sids; [frame|]. sproj.
-  rewrite (fold_left_pres evlog); [reflexivity | intros; frame]. Qed.
-#[export] Hint Rewrite fr_evlog_unsub_gather : fr.
+Proof. intros. unfold unsub_gather. destruct sids; [frame_evlog|]. sproj.
+  rewrite (fold_left_pres evlog); [reflexivity | intros; frame_evlog]. Qed.
+#[export] Hint Rewrite fr_evlog_unsub_gather : fr fr_evlog.
 Lemma fr_rtask_unsub_gather s t sids re : rtask (unsub_gather s t sids re) = rtask s.
-Proof. intros. unfold unsub_gather. destruct sids; [frame|]. sproj.
-  rewrite (fold_left_pres rtask); [reflexivity | intros; frame]. Qed.
-#[export] Hint Rewrite fr_rtask_unsub_gather : fr.
+Proof. intros. unfold unsub_gather. destruct sids; [frame_rtask|]. sproj.
+  rewrite (fold_left_pres rtask); [reflexivity | intros; frame_rtask]. Qed.
+#[export] Hint Rewrite fr_rtask_unsub_gather : fr fr_rtask.
 Lemma fr_calls_unsub_gather s t sids re : calls (unsub_gather s t sids re) = calls s.
-Proof. intros. unfold unsub_gather. destruct sids; [frame|]. sproj.
-  rewrite (fold_left_pres calls); [reflexivity | intros; frame]. Qed.
-#[export] Hint Rewrite fr_calls_unsub_gather : fr.
+Proof. intros. unfold unsub_gather. destruct sids; [frame_calls|]. sproj.
+  rewrite (fold_left_pres calls); [reflexivity | intros; frame_calls]. Qed.
+#[export] Hint Rewrite fr_calls_unsub_gather : fr fr_calls.
 Lemma fr_reqs_unsub_gather s t sids re : reqs (unsub_gather s t sids re) = reqs s.
-Proof. intros. unfold unsub_gather. destruct sids; [frame|]. sproj.
-  rewrite (fold_left_pres reqs); [reflexivity | intros; frame]. Qed.
-#[export] Hint Rewrite fr_reqs_unsub_gather : fr.
+Proof. intros. unfold unsub_gather. destruct sids; [frame_reqs|]. sproj.
+  rewrite (fold_left_pres reqs); [reflexivity | intros; frame_reqs]. Qed.
+#[export] Hint Rewrite fr_reqs_unsub_gather : fr fr_reqs.
 Lemma fr_nreqs_unsub_gather s t sids re : nreqs (unsub_gather s t sids re) = nreqs s.
-Proof. intros. unfold unsub_gather. destruct sids; [frame|]. sproj.
-  rewrite (fold_left_pres nreqs); [reflexivity | intros; frame]. Qed.
-#[export] Hint Rewrite fr_nreqs_unsub_gather : fr.
+Proof. intros. unfold unsub_gather. destruct sids; [frame_nreqs|]. sproj.
+  rewrite (fold_left_pres nreqs); [reflexivity | intros; frame_nreqs]. Qed.
+#[export] Hint Rewrite fr_nreqs_unsub_gather : fr fr_nreqs.
 Lemma fr_pub_unsub_gather s t sids re : pub (unsub_gather s t sids re) = pub s.
-Proof. intros. unfold unsub_gather. destruct sids; [frame|]. sproj.
-  rewrite (fold_left_pres pub); [reflexivity | intros; frame]. Qed.
-#[export] Hint Rewrite fr_pub_unsub_gather : fr.
+Proof. intros. unfold unsub_gather. destruct sids; [frame_pub|]. sproj.
+  rewrite (fold_left_pres pub); [reflexivity | intros; frame_pub]. Qed.
+#[export] Hint Rewrite fr_pub_unsub_gather : fr fr_pub.
 Lemma fr_nsid_unsub_gather s t sids re : nsid (unsub_gather s t sids re) = nsid s.
-Proof. intros. unfold unsub_gather. destruct sids; [frame|]. sproj.
-  rewrite (fold_left_pres nsid); [reflexivity | intros; frame]. Qed.
-#[export] Hint Rewrite fr_nsid_unsub_gather : fr.
+Proof. intros. unfold unsub_gather. destruct sids; [frame_nsid|]. sproj.
+  rewrite (fold_left_pres nsid); [reflexivity | intros; frame_nsid]. Qed.
+#[export] Hint Rewrite fr_nsid_unsub_gather : fr fr_nsid.
 Lemma fr_lapsed_unsub_gather s t sids re : lapsed (unsub_gather s t sids re) = lapsed s.
-Proof. intros. unfold unsub_gather. destruct sids; [frame|]. sproj.
-  rewrite (fold_left_pres lapsed); [reflexivity | intros; frame]. Qed.
-#[export] Hint Rewrite fr_lapsed_unsub_gather : fr.
+Proof. intros. unfold unsub_gather. destruct sids; [frame_lapsed|]. sproj.
+  rewrite (fold_left_pres lapsed); [reflexivity | intros; frame_lapsed]. Qed.
+#[export] Hint Rewrite fr_lapsed_unsub_gather : fr fr_lapsed.
 Lemma fr_diverged_unsub_gather s t sids re : diverged (unsub_gather s t sids re) = diverged s.
-Proof. intros. unfold unsub_gather. destruct sids; [frame|]. sproj.
-  rewrite (fold_left_pres diverged); [reflexivity | intros; frame]. Qed.
-#[export] Hint Rewrite fr_diverged_unsub_gather : fr.
+Proof. intros. unfold unsub_gather. destruct sids; [frame_diverged|]. sproj.
+  rewrite (fold_left_pres diverged); [reflexivity | intros; frame_diverged]. Qed.
+#[export] Hint Rewrite fr_diverged_unsub_gather : fr fr_diverged.
 Lemma fr_g_overdue_unsub_gather s t sids re : g_overdue (unsub_gather s t sids re) = g_overdue s.
-Proof. intros. unfold unsub_gather. destruct sids; [frame|]. sproj.
-  rewrite (fold_left_pres g_overdue); [reflexivity | intros; frame]. Qed.
-#[export] Hint Rewrite fr_g_overdue_unsub_gather : fr.
+Proof. intros. unfold unsub_gather. destruct sids; [frame_g_overdue|]. sproj.
+  rewrite (fold_left_pres g_overdue); [reflexivity | intros; frame_g_overdue]. Qed.
+#[export] Hint Rewrite fr_g_overdue_unsub_gather : fr fr_g_overdue.
 Lemma fr_g_inflight_unsub_gather s t sids re : g_inflight (unsub_gather s t sids re) = g_inflight s.
-Proof. intros. unfold unsub_gather. destruct sids; [frame|]. sproj.
-  rewrite (fold_left_pres g_inflight); [reflexivity | intros; frame]. Qed.
-#[export] Hint Rewrite fr_g_inflight_unsub_gather : fr.
+Proof. intros. unfold unsub_gather. destruct sids; [frame_g_inflight|]. sproj.
+  rewrite (fold_left_pres g_inflight); [reflexivity | intros; frame_g_inflight]. Qed.
+#[export] Hint Rewrite fr_g_inflight_unsub_gather : fr fr_g_inflight.
 Lemma fr_g_maxdur_unsub_gather s t sids re : g_maxdur (unsub_gather s t sids re) = g_maxdur s.
-Proof. intros. unfold unsub_gather. destruct sids; [frame|]. sproj.
-  rewrite (fold_left_pres g_maxdur); [reflexivity | intros; frame]. Qed.
-#[export] Hint Rewrite fr_g_maxdur_unsub_gather : fr.
+Proof. intros. unfold unsub_gather. destruct sids; [frame_g_maxdur|]. sproj.
+  rewrite (fold_left_pres g_maxdur); [reflexivity | intros; frame_g_maxdur]. Qed.
+#[export] Hint Rewrite fr_g_maxdur_unsub_gather : fr fr_g_maxdur.
 Lemma fr_now_forget_cancelled s : now (forget_cancelled s) = now s.
-Proof. intros. unfold forget_cancelled. frame. Qed.
-#[export] Hint Rewrite fr_now_forget_cancelled : fr.
+Proof. intros. unfold forget_cancelled. frame_now. Qed.
+#[export] Hint Rewrite fr_now_forget_cancelled : fr fr_now.
 Lemma fr_svcs_forget_cancelled s : svcs (forget_cancelled s) = svcs s.
-Proof. intros. unfold forget_cancelled. frame. Qed.
-#[export] Hint Rewrite fr_svcs_forget_cancelled : fr.
+Proof. intros. unfold forget_cancelled. frame_svcs. Qed.
+#[export] Hint Rewrite fr_svcs_forget_cancelled : fr fr_svcs.
 Lemma fr_subs_forget_cancelled s : subs (forget_cancelled s) = subs s.
-Proof. intros. unfold forget_cancelled. frame. Qed.
-#[export] Hint Rewrite fr_subs_forget_cancelled : fr.
+Proof. intros. unfold forget_cancelled. frame_subs. Qed.
+#[export] Hint Rewrite fr_subs_forget_cancelled : fr fr_subs.
 Lemma fr_routed_forget_cancelled s : routed (forget_cancelled s) = routed s.
-Proof. intros. unfold forget_cancelled. frame. Qed.
-#[export] Hint Rewrite fr_routed_forget_cancelled : fr.
+Proof. intros. unfold forget_cancelled. frame_routed. Qed.
+#[export] Hint Rewrite fr_routed_forget_cancelled : fr fr_routed.
 Lemma fr_avail_forget_cancelled s : avail (forget_cancelled s) = avail s.
-Proof. intros. unfold forget_cancelled. frame. Qed.
-#[export] Hint Rewrite fr_avail_forget_cancelled : fr.
+Proof. intros. unfold forget_cancelled. frame_avail. Qed.
+#[export] Hint Rewrite fr_avail_forget_cancelled : fr fr_avail.
 Lemma fr_evlog_forget_cancelled s : evlog (forget_cancelled s) = evlog s.
-Proof. intros. unfold forget_cancelled. frame. Qed.
-#[export] Hint Rewrite fr_evlog_forget_cancelled : fr.
+Proof. intros. unfold forget_cancelled. frame_evlog. Qed.
+#[export] Hint Rewrite fr_evlog_forget_cancelled : fr fr_evlog.
 Lemma fr_tasks_forget_cancelled s : tasks (forget_cancelled s) = tasks s.
-Proof. intros. unfold forget_cancelled. frame. Qed.
-#[export] Hint Rewrite fr_tasks_forget_cancelled : fr.
+Proof. intros. unfold forget_cancelled. frame_tasks. Qed.
+#[export] Hint Rewrite fr_tasks_forget_cancelled : fr fr_tasks.
 Lemma fr_ntasks_forget_cancelled s : ntasks (forget_cancelled s) = ntasks s.
-Proof. intros. unfold forget_cancelled. frame. Qed.
-#[export] Hint Rewrite fr_ntasks_forget_cancelled : fr.
+Proof. intros. unfold forget_cancelled. frame_ntasks. Qed.
+#[export] Hint Rewrite fr_ntasks_forget_cancelled : fr fr_ntasks.
 Lemma fr_calls_forget_cancelled s : calls (forget_cancelled s) = calls s.
-Proof. intros. unfold forget_cancelled. frame. Qed.
-#[export] Hint Rewrite fr_calls_forget_cancelled : fr.
+Proof. intros. unfold forget_cancelled. frame_calls. Qed.
+#[export] Hint Rewrite fr_calls_forget_cancelled : fr fr_calls.
 Lemma fr_reqs_forget_cancelled s : reqs (forget_cancelled s) = reqs s.
-Proof. intros. unfold forget_cancelled. frame. Qed.
-#[export] Hint Rewrite fr_reqs_forget_cancelled : fr.
+Proof. intros. unfold forget_cancelled. frame_reqs. Qed.
+#[export] Hint Rewrite fr_reqs_forget_cancelled : fr fr_reqs.
 Lemma fr_nreqs_forget_cancelled s : nreqs (forget_cancelled s) = nreqs s.
-Proof. intros. unfold forget_cancelled. frame. Qed.
-#[export] Hint Rewrite fr_nreqs_forget_cancelled : fr.
+Proof. intros. unfold forget_cancelled. frame_nreqs. Qed.
+#[export] Hint Rewrite fr_nreqs_forget_cancelled : fr fr_nreqs.
 Lemma fr_ready_forget_cancelled s : ready (forget_cancelled s) = ready s.
-Proof. intros. unfold forget_cancelled. frame. Qed.
-#[export] Hint Rewrite fr_ready_forget_cancelled : fr.
+Proof. intros. unfold forget_cancelled. frame_ready. Qed.
+#[export] Hint Rewrite fr_ready_forget_cancelled : fr fr_ready.
 Lemma fr_pub_forget_cancelled s : pub (forget_cancelled s) = pub s.
-Proof. intros. unfold forget_cancelled. frame. Qed.
-#[export] Hint Rewrite fr_pub_forget_cancelled : fr.
+Proof. intros. unfold forget_cancelled. frame_pub. Qed.
+#[export] Hint Rewrite fr_pub_forget_cancelled : fr fr_pub.
 Lemma fr_nsid_forget_cancelled s : nsid (forget_cancelled s) = nsid s.
-Proof. intros. unfold forget_cancelled. frame. Qed.
-#[export] Hint Rewrite fr_nsid_forget_cancelled : fr.
+Proof. intros. unfold forget_cancelled. frame_nsid. Qed.
+#[export] Hint Rewrite fr_nsid_forget_cancelled : fr fr_nsid.
 Lemma fr_lapsed_forget_cancelled s : lapsed (forget_cancelled s) = lapsed s.
-Proof. intros. unfold forget_cancelled. frame. Qed.
-#[export] Hint Rewrite fr_lapsed_forget_cancelled : fr.
+Proof. intros. unfold forget_cancelled. frame_lapsed. Qed.
+#[export] Hint Rewrite fr_lapsed_forget_cancelled : fr fr_lapsed.
 Lemma fr_diverged_forget_cancelled s : diverged (forget_cancelled s) = diverged s.
-Proof. intros. unfold forget_cancelled. frame. Qed.
-#[export] Hint Rewrite fr_diverged_forget_cancelled : fr.
+Proof. intros. unfold forget_cancelled. frame_diverged. Qed.
+#[export] Hint Rewrite fr_diverged_forget_cancelled : fr fr_diverged.
 Lemma fr_g_overdue_forget_cancelled s : g_overdue (forget_cancelled s) = g_overdue s.
-Proof. intros. unfold forget_cancelled. frame. Qed.
-#[export] Hint Rewrite fr_g_overdue_forget_cancelled : fr.
+Proof. intros. unfold forget_cancelled. frame_g_overdue. Qed.
+#[export] Hint Rewrite fr_g_overdue_forget_cancelled : fr fr_g_overdue.
 Lemma fr_g_inflight_forget_cancelled s : g_inflight (forget_cancelled s) = g_inflight s.
-Proof. intros. unfold forget_cancelled. frame. Qed.
-#[export] Hint Rewrite fr_g_inflight_forget_cancelled : fr.
+Proof. intros. unfold forget_cancelled. frame_g_inflight. Qed.
+#[export] Hint Rewrite fr_g_inflight_forget_cancelled : fr fr_g_inflight.
 Lemma fr_g_maxdur_forget_cancelled s : g_maxdur (forget_cancelled s) = g_maxdur s.
-Proof. intros. unfold forget_cancelled. frame. Qed.
-#[export] Hint Rewrite fr_g_maxdur_forget_cancelled : fr.
+Proof. intros. unfold forget_cancelled. frame_g_maxdur. Qed.
+#[export] Hint Rewrite fr_g_maxdur_forget_cancelled : fr fr_g_maxdur.
 Lemma fr_now_mark_inflight s lt : now (mark_inflight s lt) = now s.
-Proof. intros. unfold mark_inflight. frame. Qed.
-#[export] Hint Rewrite fr_now_mark_inflight : fr.
+Proof. intros. unfold mark_inflight. frame_now. Qed.
+#[export] Hint Rewrite fr_now_mark_inflight : fr fr_now.
 Lemma fr_svcs_mark_inflight s lt : svcs (mark_inflight s lt) = svcs s.
-Proof. intros. unfold mark_inflight. frame. Qed.
-#[export] Hint Rewrite fr_svcs_mark_inflight : fr.
+Proof. intros. unfold mark_inflight. frame_svcs. Qed.
+#[export] Hint Rewrite fr_svcs_mark_inflight : fr fr_svcs.
 Lemma fr_subs_mark_inflight s lt : subs (mark_inflight s lt) = subs s.
-Proof. intros. unfold mark_inflight. frame. Qed.
-#[export] Hint Rewrite fr_subs_mark_inflight : fr.
+Proof. intros. unfold mark_inflight. frame_subs. Qed.
+#[export] Hint Rewrite fr_subs_mark_inflight : fr fr_subs.
 Lemma fr_routed_mark_inflight s lt : routed (mark_inflight s lt) = routed s.
-Proof. intros. unfold mark_inflight. frame. Qed.
-#[export] Hint Rewrite fr_routed_mark_inflight : fr.
+Proof. intros. unfold mark_inflight. frame_routed. Qed.
+#[export] Hint Rewrite fr_routed_mark_inflight : fr fr_routed.
 Lemma fr_avail_mark_inflight s lt : avail (mark_inflight s lt) = avail s.
-Proof. intros. unfold mark_inflight. frame. Qed.
-#[export] Hint Rewrite fr_avail_mark_inflight : fr.
+Proof. intros. unfold mark_inflight. frame_avail. Qed.
+#[export] Hint Rewrite fr_avail_mark_inflight : fr fr_avail.
 Lemma fr_evlog_mark_inflight s lt : evlog (mark_inflight s lt) = evlog s.
-Proof. intros. unfold mark_inflight. frame. Qed.
-#[export] Hint Rewrite fr_evlog_mark_inflight : fr.
+Proof. intros. unfold mark_inflight. frame_evlog. Qed.
+#[export] Hint Rewrite fr_evlog_mark_inflight : fr fr_evlog.
 Lemma fr_rtask_mark_inflight s lt : rtask (mark_inflight s lt) = rtask s.
-Proof. intros. unfold mark_inflight. frame. Qed.
-#[export] Hint Rewrite fr_rtask_mark_inflight : fr.
+Proof. intros. unfold mark_inflight. frame_rtask. Qed.
+#[export] Hint Rewrite fr_rtask_mark_inflight : fr fr_rtask.
 Lemma fr_tasks_mark_inflight s lt : tasks (mark_inflight s lt) = tasks s.
-Proof. intros. unfold mark_inflight. frame. Qed.
-#[export] Hint Rewrite fr_tasks_mark_inflight : fr.
+Proof. intros. unfold mark_inflight. frame_tasks. Qed.
+#[export] Hint Rewrite fr_tasks_mark_inflight : fr fr_tasks.
 Lemma fr_ntasks_mark_inflight s lt : ntasks (mark_inflight s lt) = ntasks s.
-Proof. intros. unfold mark_inflight. frame. Qed.
-#[export] Hint Rewrite fr_ntasks_mark_inflight : fr.
+Proof. intros. unfold mark_inflight. frame_ntasks. Qed.
+#[export] Hint Rewrite fr_ntasks_mark_inflight : fr fr_ntasks.
 Lemma fr_calls_mark_inflight s lt : calls (mark_inflight s lt) = calls s.
-Proof. intros. unfold mark_inflight. frame. Qed.
-#[export] Hint Rewrite fr_calls_mark_inflight : fr.
+Proof. intros. unfold mark_inflight. frame_calls. Qed.
+#[export] Hint Rewrite fr_calls_mark_inflight : fr fr_calls.
 Lemma fr_reqs_mark_inflight s lt : reqs (mark_inflight s lt) = reqs s.
-Proof. intros. unfold mark_inflight. frame. Qed.
-#[export] Hint Rewrite fr_reqs_mark_inflight : fr.
+Proof. intros. unfold mark_inflight. frame_reqs. Qed.
+#[export] Hint Rewrite fr_reqs_mark_inflight : fr fr_reqs.
 Lemma fr_nreqs_mark_inflight s lt : nreqs (mark_inflight s lt) = nreqs s.
-Proof. intros. unfold mark_inflight. frame. Qed.
-#[export] Hint Rewrite fr_nreqs_mark_inflight : fr.
+Proof. intros. unfold mark_inflight. frame_nreqs. Qed.
+#[export] Hint Rewrite fr_nreqs_mark_inflight : fr fr_nreqs.
 Lemma fr_ready_mark_inflight s lt : ready (mark_inflight s lt) = ready s.
-Proof. intros. unfold mark_inflight. frame. Qed.
-#[export] Hint Rewrite fr_ready_mark_inflight : fr.
+Proof. intros. unfold mark_inflight. frame_ready. Qed.
+#[export] Hint Rewrite fr_ready_mark_inflight : fr fr_ready.
 Lemma fr_pub_mark_inflight s lt : pub (mark_inflight s lt) = pub s.
-Proof. intros. unfold mark_inflight. frame. Qed.
-#[export] Hint Rewrite fr_pub_mark_inflight : fr.
+Proof. intros. unfold mark_inflight. frame_pub. Qed.
+#[export] Hint Rewrite fr_pub_mark_inflight : fr fr_pub.
 Lemma fr_nsid_mark_inflight s lt : nsid (mark_inflight s lt) = nsid s.
-Proof. intros. unfold mark_inflight. frame. Qed.
-#[export] Hint Rewrite fr_nsid_mark_inflight : fr.
+Proof. intros. unfold mark_inflight. frame_nsid. Qed.
+#[export] Hint Rewrite fr_nsid_mark_inflight : fr fr_nsid.
 Lemma fr_lapsed_mark_inflight s lt : lapsed (mark_inflight s lt) = lapsed s.
-Proof. intros. unfold mark_inflight. frame. Qed.
-#[export] Hint Rewrite fr_lapsed_mark_inflight : fr.
+Proof. intros. unfold mark_inflight. frame_lapsed. Qed.
+#[export] Hint Rewrite fr_lapsed_mark_inflight : fr fr_lapsed.
 Lemma fr_diverged_mark_inflight s lt : diverged (mark_inflight s lt) = diverged s.
-Proof. intros. unfold mark_inflight. frame. Qed.
-#[export] Hint Rewrite fr_diverged_mark_inflight : fr.
+Proof. intros. unfold mark_inflight. frame_diverged. Qed.
+#[export] Hint Rewrite fr_diverged_mark_inflight : fr fr_diverged.
 Lemma fr_g_overdue_mark_inflight s lt : g_overdue (mark_inflight s lt) = g_overdue s.
-Proof. intros. unfold mark_inflight. frame. Qed.
-#[export] Hint Rewrite fr_g_overdue_mark_inflight : fr.
+Proof. intros. unfold mark_inflight. frame_g_overdue. Qed.
+#[export] Hint Rewrite fr_g_overdue_mark_inflight : fr fr_g_overdue.
 Lemma fr_g_maxdur_mark_inflight s lt : g_maxdur (mark_inflight s lt) = g_maxdur s.
-Proof. intros. unfold mark_inflight. frame. Qed.
-#[export] Hint Rewrite fr_g_maxdur_mark_inflight : fr.
+Proof. intros. unfold mark_inflight. frame_g_maxdur. Qed.
+#[export] Hint Rewrite fr_g_maxdur_mark_inflight : fr fr_g_maxdur.
 Lemma fr_now_await_task s t sids lt re : now (await_task s t sids lt re) = now s.
-Proof. intros. unfold await_task. frame. Qed.
-#[export] Hint Rewrite fr_now_await_task : fr.
+Proof. intros. unfold await_task. frame_now. Qed.
+#[export] Hint Rewrite fr_now_await_task : fr fr_now.
 Lemma fr_svcs_await_task s t sids lt re : svcs (await_task s t sids lt re) = svcs s.
-Proof. intros. unfold await_task. frame. Qed.
-#[export] Hint Rewrite fr_svcs_await_task : fr.
+Proof. intros. unfold await_task. frame_svcs. Qed.
+#[export] Hint Rewrite fr_svcs_await_task : fr fr_svcs.
 Lemma fr_subs_await_task s t sids lt re : subs (await_task s t sids lt re) = subs s.
-Proof. intros. unfold await_task. frame. Qed.
-#[export] Hint Rewrite fr_subs_await_task : fr.
+Proof. intros. unfold await_task. frame_subs. Qed.
+#[export] Hint Rewrite fr_subs_await_task : fr fr_subs.
 Lemma fr_routed_await_task s t sids lt re : routed (await_task s t sids lt re) = routed s.
-Proof. intros. unfold await_task. frame. Qed.
-#[export] Hint Rewrite fr_routed_await_task : fr.
+Proof. intros. unfold await_task. frame_routed. Qed.
+#[export] Hint Rewrite fr_routed_await_task : fr fr_routed.
 Lemma fr_avail_await_task s t sids lt re : avail (await_task s t sids lt re) = avail s.
-Proof. intros. unfold await_task. frame. Qed.
-#[export] Hint Rewrite fr_avail_await_task : fr.
+Proof. intros. unfold await_task. frame_avail. Qed.
+#[export] Hint Rewrite fr_avail_await_task : fr fr_avail.
 Lemma fr_evlog_await_task s t sids lt re : evlog (await_task s t sids lt re) = evlog s.
-Proof. intros. unfold await_task. frame. Qed.
-#[export] Hint Rewrite fr_evlog_await_task : fr.
+Proof. intros. unfold await_task. frame_evlog. Qed.
+#[export] Hint Rewrite fr_evlog_await_task : fr fr_evlog.
 Lemma fr_calls_await_task s t sids lt re : calls (await_task s t sids lt re) = calls s.
-Proof. intros. unfold await_task. frame. Qed.
-#[export] Hint Rewrite fr_calls_await_task : fr.
+Proof. intros. unfold await_task. frame_calls. Qed.
+#[export] Hint Rewrite fr_calls_await_task : fr fr_calls.
 Lemma fr_reqs_await_task s t sids lt re : reqs (await_task s t sids lt re) = reqs s.
-Proof. intros. unfold await_task. frame. Qed.
-#[export] Hint Rewrite fr_reqs_await_task : fr.
+Proof. intros. unfold await_task. frame_reqs. Qed.
+#[export] Hint Rewrite fr_reqs_await_task : fr fr_reqs.
 Lemma fr_nreqs_await_task s t sids lt re : nreqs (await_task s t sids lt re) = nreqs s.
-Proof. intros. unfold await_task. frame. Qed.
-#[export] Hint Rewrite fr_nreqs_await_task : fr.
+Proof. intros. unfold await_task. frame_nreqs. Qed.
+#[export] Hint Rewrite fr_nreqs_await_task : fr fr_nreqs.
 Lemma fr_pub_await_task s t sids lt re : pub (await_task s t sids lt re) = pub s.
-Proof. intros. unfold await_task. frame. Qed.
-#[export] Hint Rewrite fr_pub_await_task : fr.
+Proof. intros. unfold await_task. frame_pub. Qed.
+#[export] Hint Rewrite fr_pub_await_task : fr fr_pub.
 Lemma fr_nsid_await_task s t sids lt re : nsid (await_task s t sids lt re) = nsid s.
-Proof. intros. unfold await_task. frame. Qed.
-#[export] Hint Rewrite fr_nsid_await_task : fr.
+Proof. intros. unfold await_task. frame_nsid. Qed.
+#[export] Hint Rewrite fr_nsid_await_task : fr fr_nsid.
 Lemma fr_lapsed_await_task s t sids lt re : lapsed (await_task s t sids lt re) = lapsed s.
-Proof. intros. unfold await_task. frame. Qed.
-#[export] Hint Rewrite fr_lapsed_await_task : fr.
+Proof. intros. unfold await_task. frame_lapsed. Qed.
+#[export] Hint Rewrite fr_lapsed_await_task : fr fr_lapsed.
 Lemma fr_diverged_await_task s t sids lt re : diverged (await_task s t sids lt re) = diverged s.
-Proof. intros. unfold await_task. frame. Qed.
-#[export] Hint Rewrite fr_diverged_await_task : fr.
+Proof. intros. unfold await_task. frame_diverged. Qed.
+#[export] Hint Rewrite fr_diverged_await_task : fr fr_diverged.
 Lemma fr_g_overdue_await_task s t sids lt re : g_overdue (await_task s t sids lt re) = g_overdue s.
-Proof. intros. unfold await_task. frame. Qed.
-#[export] Hint Rewrite fr_g_overdue_await_task : fr.
+Proof. intros. unfold await_task. frame_g_overdue. Qed.
+#[export] Hint Rewrite fr_g_overdue_await_task : fr fr_g_overdue.
 Lemma fr_g_inflight_await_task s t sids lt re : g_inflight (await_task s t sids lt re) = g_inflight s.
-Proof. intros. unfold await_task. frame. Qed.
-#[export] Hint Rewrite fr_g_inflight_await_task : fr.
+Proof. intros. unfold await_task. frame_g_inflight. Qed.
+#[export] Hint Rewrite fr_g_inflight_await_task : fr fr_g_inflight.
 Lemma fr_g_maxdur_await_task s t sids lt re : g_maxdur (await_task s t sids lt re) = g_maxdur s.
-Proof. intros. unfold await_task. frame. Qed.
-#[export] Hint Rewrite fr_g_maxdur_await_task : fr.
+Proof. intros. unfold await_task. frame_g_maxdur. Qed.
+#[export] Hint Rewrite fr_g_maxdur_await_task : fr fr_g_maxdur.
 Lemma fr_now_unsub_services s t re : now (unsub_services s t re) = now s.
-Proof. intros. unfold unsub_services. frame. Qed.
-#[export] Hint Rewrite fr_now_unsub_services : fr.
+Proof. intros. unfold unsub_services. frame_now. Qed.
+#[export] Hint Rewrite fr_now_unsub_services : fr fr_now.
 Lemma fr_svcs_unsub_services s t re : svcs (unsub_services s t re) = svcs s.
-Proof. intros. unfold unsub_services. frame. Qed.
-#[export] Hint Rewrite fr_svcs_unsub_services : fr.
+Proof. intros. unfold unsub_services. frame_svcs. Qed.
+#[export] Hint Rewrite fr_svcs_unsub_services : fr fr_svcs.
 Lemma fr_routed_unsub_services s t re : routed (unsub_services s t re) = routed s.
-Proof. intros. unfold unsub_services. frame. Qed.
-#[export] Hint Rewrite fr_routed_unsub_services : fr.
+Proof. intros. unfold unsub_services. frame_routed. Qed.
+#[export] Hint Rewrite fr_routed_unsub_services : fr fr_routed.
 Lemma fr_avail_unsub_services s t re : avail (unsub_services s t re) = avail s.
-Proof. intros. unfold unsub_services. frame. Qed.
-#[export] Hint Rewrite fr_avail_unsub_services : fr.
+Proof. intros. unfold unsub_services. frame_avail. Qed.
+#[export] Hint Rewrite fr_avail_unsub_services : fr fr_avail.
 Lemma fr_evlog_unsub_services s t re : evlog (unsub_services s t re) = evlog s.
-Proof. intros. unfold unsub_services. frame. Qed.
-#[export] Hint Rewrite fr_evlog_unsub_services : fr.
+Proof. intros. unfold unsub_services. frame_evlog. Qed.
+#[export] Hint Rewrite fr_evlog_unsub_services : fr fr_evlog.
 Lemma fr_calls_unsub_services s t re : calls (unsub_services s t re) = calls s.
-Proof. intros. unfold unsub_services. frame. Qed.
-#[export] Hint Rewrite fr_calls_unsub_services : fr.
+Proof. intros. unfold unsub_services. frame_calls. Qed.
+#[export] Hint Rewrite fr_calls_unsub_services : fr fr_calls.
 Lemma fr_nreqs_unsub_services s t re : nreqs (unsub_services s t re) = nreqs s.
-Proof. intros. unfold unsub_services. frame. Qed.
-#[export] Hint Rewrite fr_nreqs_unsub_services : fr.
+Proof. intros. unfold unsub_services. frame_nreqs. Qed.
+#[export] Hint Rewrite fr_nreqs_unsub_services : fr fr_nreqs.
 Lemma fr_pub_unsub_services s t re : pub (unsub_services s t re) = pub s.
-Proof. intros. unfold unsub_services. frame. Qed.
-#[export] Hint Rewrite fr_pub_unsub_services : fr.
+Proof. intros. unfold unsub_services. frame_pub. Qed.
+#[export] Hint Rewrite fr_pub_unsub_services : fr fr_pub.
 Lemma fr_nsid_unsub_services s t re : nsid (unsub_services s t re) = nsid s.
-Proof. intros. unfold unsub_services. frame. Qed.
-#[export] Hint Rewrite fr_nsid_unsub_services : fr.
+Proof. intros. unfold unsub_services. frame_nsid. Qed.
+#[export] Hint Rewrite fr_nsid_unsub_services : fr fr_nsid.
 Lemma fr_lapsed_unsub_services s t re : lapsed (unsub_services s t re) = lapsed s.
-Proof. intros. unfold unsub_services. frame. Qed.
-#[export] Hint Rewrite fr_lapsed_unsub_services : fr.
+Proof. intros. unfold unsub_services. frame_lapsed. Qed.
+#[export] Hint Rewrite fr_lapsed_unsub_services : fr fr_lapsed.
 Lemma fr_diverged_unsub_services s t re : diverged (unsub_services s t re) = diverged s.
-Proof. intros. unfold unsub_services. frame. Qed.
-#[export] Hint Rewrite fr_diverged_unsub_services : fr.
+Proof. intros. unfold unsub_services. frame_diverged. Qed.
+#[export] Hint Rewrite fr_diverged_unsub_services : fr fr_diverged.
 Lemma fr_g_overdue_unsub_services s t re : g_overdue (unsub_services s t re) = g_overdue s.
-Proof. intros. unfold unsub_services. frame. Qed.
-#[export] Hint Rewrite fr_g_overdue_unsub_services : fr.
+Proof. intros. unfold unsub_services. frame_g_overdue. Qed.
+#[export] Hint Rewrite fr_g_overdue_unsub_services : fr fr_g_overdue.
 Lemma fr_g_maxdur_unsub_services s t re : g_maxdur (unsub_services s t re) = g_maxdur s.
-Proof. intros. unfold unsub_services. frame. Qed.
-#[export] Hint Rewrite fr_g_maxdur_unsub_services : fr.
+Proof. intros. unfold unsub_services. frame_g_maxdur. Qed.
+#[export] Hint Rewrite fr_g_maxdur_unsub_services : fr fr_g_maxdur.
 Lemma fr_now_sub_post s t auto now0 : now (sub_post s t auto now0) = now s.
-Proof. intros. unfold sub_post. frame. Qed.
-#[export] Hint Rewrite fr_now_sub_post : fr.
+Proof. intros. unfold sub_post. frame_now. Qed.
+#[export] Hint Rewrite fr_now_sub_post : fr fr_now.
 Lemma fr_svcs_sub_post s t auto now0 : svcs (sub_post s t auto now0) = svcs s.
-Proof. intros. unfold sub_post. frame. Qed.
-#[export] Hint Rewrite fr_svcs_sub_post : fr.
+Proof. intros. unfold sub_post. frame_svcs. Qed.
+#[export] Hint Rewrite fr_svcs_sub_post : fr fr_svcs.
 Lemma fr_subs_sub_post s t auto now0 : subs (sub_post s t auto now0) = subs s.
-Proof. intros. unfold sub_post. frame. Qed.
-#[export] Hint Rewrite fr_subs_sub_post : fr.
+Proof. intros. unfold sub_post. frame_subs. Qed.
+#[export] Hint Rewrite fr_subs_sub_post : fr fr_subs.
 Lemma fr_routed_sub_post s t auto now0 : routed (sub_post s t auto now0) = routed s.
-Proof. intros. unfold sub_post. frame. Qed.
-#[export] Hint Rewrite fr_routed_sub_post : fr.
+Proof. intros. unfold sub_post. frame_routed. Qed.
+#[export] Hint Rewrite fr_routed_sub_post : fr fr_routed.
 Lemma fr_avail_sub_post s t auto now0 : avail (sub_post s t auto now0) = avail s.
-Proof. intros. unfold sub_post. frame. Qed.
-#[export] Hint Rewrite fr_avail_sub_post : fr.
+Proof. intros. unfold sub_post. frame_avail. Qed.
+#[export] Hint Rewrite fr_avail_sub_post : fr fr_avail.
 Lemma fr_evlog_sub_post s t auto now0 : evlog (sub_post s t auto now0) = evlog s.
-Proof. intros. unfold sub_post. frame. Qed.
-#[export] Hint Rewrite fr_evlog_sub_post : fr.
+Proof. intros. unfold sub_post. frame_evlog. Qed.
+#[export] Hint Rewrite fr_evlog_sub_post : fr fr_evlog.
 Lemma fr_calls_sub_post s t auto now0 : calls (sub_post s t auto now0) = calls s.
-Proof. intros. unfold sub_post. frame. Qed.
-#[export] Hint Rewrite fr_calls_sub_post : fr.
+Proof. intros. unfold sub_post. frame_calls. Qed.
+#[export] Hint Rewrite fr_calls_sub_post : fr fr_calls.
 Lemma fr_reqs_sub_post s t auto now0 : reqs (sub_post s t auto now0) = reqs s.
-Proof. intros. unfold sub_post. frame. Qed.
-#[export] Hint Rewrite fr_reqs_sub_post : fr.
+Proof. intros. unfold sub_post. frame_reqs. Qed.
+#[export] Hint Rewrite fr_reqs_sub_post : fr fr_reqs.
 Lemma fr_nreqs_sub_post s t auto now0 : nreqs (sub_post s t auto now0) = nreqs s.
-Proof. intros. unfold sub_post. frame. Qed.
-#[export] Hint Rewrite fr_nreqs_sub_post : fr.
+Proof. intros. unfold sub_post. frame_nreqs. Qed.
+#[export] Hint Rewrite fr_nreqs_sub_post : fr fr_nreqs.
 Lemma fr_pub_sub_post s t auto now0 : pub (sub_post s t auto now0) = pub s.
-Proof. intros. unfold sub_post. frame. Qed.
-#[export] Hint Rewrite fr_pub_sub_post : fr.
+Proof. intros. unfold sub_post. frame_pub. Qed.
+#[export] Hint Rewrite fr_pub_sub_post : fr fr_pub.
 Lemma fr_nsid_sub_post s t auto now0 : nsid (sub_post s t auto now0) = nsid s.
-Proof. intros. unfold sub_post. frame. Qed.
-#[export] Hint Rewrite fr_nsid_sub_post : fr.
+Proof. intros. unfold sub_post. frame_nsid. Qed.
+#[export] Hint Rewrite fr_nsid_sub_post : fr fr_nsid.
 Lemma fr_lapsed_sub_post s t auto now0 : lapsed (sub_post s t auto now0) = lapsed s.
-Proof. intros. unfold sub_post. frame. Qed.
-#[export] Hint Rewrite fr_lapsed_sub_post : fr.
+Proof. intros. unfold sub_post. frame_lapsed. Qed.
+#[export] Hint Rewrite fr_lapsed_sub_post : fr fr_lapsed.
 Lemma fr_diverged_sub_post s t auto now0 : diverged (sub_post s t auto now0) = diverged s.
-Proof. intros. unfold sub_post. frame. Qed.
-#[export] Hint Rewrite fr_diverged_sub_post : fr.
+Proof. intros. unfold sub_post. frame_diverged. Qed.
+#[export] Hint Rewrite fr_diverged_sub_post : fr fr_diverged.
 Lemma fr_g_overdue_sub_post s t auto now0 : g_overdue (sub_post s t auto now0) = g_overdue s.
-Proof. intros. unfold sub_post. frame. Qed.
-#[export] Hint Rewrite fr_g_overdue_sub_post : fr.
+Proof. intros. unfold sub_post. frame_g_overdue. Qed.
+#[export] Hint Rewrite fr_g_overdue_sub_post : fr fr_g_overdue.
 Lemma fr_g_inflight_sub_post s t auto now0 : g_inflight (sub_post s t auto now0) = g_inflight s.
-Proof. intros. unfold sub_post. frame. Qed.
-#[export] Hint Rewrite fr_g_inflight_sub_post : fr.
+Proof. intros. unfold sub_post. frame_g_inflight. Qed.
+#[export] Hint Rewrite fr_g_inflight_sub_post : fr fr_g_inflight.
 Lemma fr_g_maxdur_sub_post s t auto now0 : g_maxdur (sub_post s t auto now0) = g_maxdur s.
-Proof. intros. unfold sub_post. frame. Qed.
-#[export] Hint Rewrite fr_g_maxdur_sub_post : fr.
+Proof. intros. unfold sub_post. frame_g_maxdur. Qed.
+#[export] Hint Rewrite fr_g_maxdur_sub_post : fr fr_g_maxdur.
 Lemma fr_now_pass_scan s t pn nf todo : now (ost (pass_scan s t pn nf todo)) = now s.
 Proof. revert s. induction todo as [|[x d] r IH]; intros s; cbn [pass_scan]; [reflexivity|].
-  repeat first [rewrite IH | frame1]. Qed.
-#[export] Hint Rewrite fr_now_pass_scan : fr.
+  repeat first [rewrite IH | frame1_now]. Qed.
+#[export] Hint Rewrite fr_now_pass_scan : fr fr_now.
 Lemma fr_svcs_pass_scan s t pn nf todo : svcs (ost (pass_scan s t pn nf todo)) = svcs s.
 Proof. revert s. induction todo as [|[x d] r IH]; intros s; cbn [pass_scan]; [reflexivity|].
-  repeat first [rewrite IH | frame1]. Qed.
-#[export] Hint Rewrite fr_svcs_pass_scan : fr.
+  repeat first [rewrite IH | frame1_svcs]. Qed.
+#[export] Hint Rewrite fr_svcs_pass_scan : fr fr_svcs.
 Lemma fr_routed_pass_scan s t pn nf todo : routed (ost (pass_scan s t pn nf todo)) = routed s.
 Proof. revert s. induction todo as [|[x d] r IH]; intros s; cbn [pass_scan]; [reflexivity|].
-  repeat first [rewrite IH | frame1]. Qed.
-#[export] Hint Rewrite fr_routed_pass_scan : fr.
+  repeat first [rewrite IH | frame1_routed]. Qed.
+#[export] Hint Rewrite fr_routed_pass_scan : fr fr_routed.
 Lemma fr_avail_pass_scan s t pn nf todo : avail (ost (pass_scan s t pn nf todo)) = avail s.
 Proof. revert s. induction todo as [|[x d] r IH]; intros s; cbn [pass_scan]; [reflexivity|].
-  repeat first [rewrite IH | frame1]. Qed.
-#[export] Hint Rewrite fr_avail_pass_scan : fr.
+  repeat first [rewrite IH | frame1_avail]. Qed.
+#[export] Hint Rewrite fr_avail_pass_scan : fr fr_avail.
 Lemma fr_evlog_pass_scan s t pn nf todo : evlog (ost (pass_scan s t pn nf todo)) = evlog s.
 Proof. revert s. induction todo as [|[x d] r IH]; intros s; cbn [pass_scan]; [reflexivity|].
-  repeat first [rewrite IH | frame1]. Qed.
-#[export] Hint Rewrite fr_evlog_pass_scan : fr.
+  repeat first [rewrite IH | frame1_evlog]. Qed.
+#[export] Hint Rewrite fr_evlog_pass_scan : fr fr_evlog.
 Lemma fr_rtask_pass_scan s t pn nf todo : rtask (ost (pass_scan s t pn nf todo)) = rtask s.
 Proof. revert s. induction todo as [|[x d] r IH]; intros s; cbn [pass_scan]; [reflexivity|].
-  repeat first [rewrite IH | frame1]. Qed.
-#[export] Hint Rewrite fr_rtask_pass_scan : fr.
+  repeat first [rewrite IH | frame1_rtask]. Qed.
+#[export] Hint Rewrite fr_rtask_pass_scan : fr fr_rtask.
 Lemma fr_ntasks_pass_scan s t pn nf todo : ntasks (ost (pass_scan s t pn nf todo)) = ntasks s.
 Proof. revert s. induction todo as [|[x d] r IH]; intros s; cbn [pass_scan]; [reflexivity|].
-  repeat first [rewrite IH | frame1]. Qed.
-#[export] Hint Rewrite fr_ntasks_pass_scan : fr.
+  repeat first [rewrite IH | frame1_ntasks]. Qed.
+#[export] Hint Rewrite fr_ntasks_pass_scan : fr fr_ntasks.
 Lemma fr_calls_pass_scan s t pn nf todo : calls (ost (pass_scan s t pn nf todo)) = calls s.
 Proof. revert s. induction todo as [|[x d] r IH]; intros s; cbn [pass_scan]; [reflexivity|].
-  repeat first [rewrite IH | frame1]. Qed.
-#[export] Hint Rewrite fr_calls_pass_scan : fr.
+  repeat first [rewrite IH | frame1_calls]. Qed.
+#[export] Hint Rewrite fr_calls_pass_scan : fr fr_calls.
 Lemma fr_ready_pass_scan s t pn nf todo : ready (ost (pass_scan s t pn nf todo)) = ready s.
 Proof. revert s. induction todo as [|[x d] r IH]; intros s; cbn [pass_scan]; [reflexivity|].
-  repeat first [rewrite IH | frame1]. Qed.
-#[export] Hint Rewrite fr_ready_pass_scan : fr.
+  repeat first [rewrite IH | frame1_ready]. Qed.
+#[export] Hint Rewrite fr_ready_pass_scan : fr fr_ready.
 Lemma fr_pub_pass_scan s t pn nf todo : pub (ost (pass_scan s t pn nf todo)) = pub s.
 Proof. revert s. induction todo as [|[x d] r IH]; intros s; cbn [pass_scan]; [reflexivity|].
-  repeat first [rewrite IH | frame1]. Qed.
-#[export] Hint Rewrite fr_pub_pass_scan : fr.
+  repeat first [rewrite IH | frame1_pub]. Qed.
+#[export] Hint Rewrite fr_pub_pass_scan : fr fr_pub.
 Lemma fr_nsid_pass_scan s t pn nf todo : nsid (ost (pass_scan s t pn nf todo)) = nsid s.
 Proof. revert s. induction todo as [|[x d] r IH]; intros s; cbn [pass_scan]; [reflexivity|].
-  repeat first [rewrite IH | frame1]. Qed.
-#[export] Hint Rewrite fr_nsid_pass_scan : fr.
+  repeat first [rewrite IH | frame1_nsid]. Qed.
+#[export] Hint Rewrite fr_nsid_pass_scan : fr fr_nsid.
 Lemma fr_lapsed_pass_scan s t pn nf todo : lapsed (ost (pass_scan s t pn nf todo)) = lapsed s.
 Proof. revert s. induction todo as [|[x d] r IH]; intros s; cbn [pass_scan]; [reflexivity|].
-  repeat first [rewrite IH | frame1]. Qed.
-#[export] Hint Rewrite fr_lapsed_pass_scan : fr.
+  repeat first [rewrite IH | frame1_lapsed]. Qed.
+#[export] Hint Rewrite fr_lapsed_pass_scan : fr fr_lapsed.
 Lemma fr_diverged_pass_scan s t pn nf todo : diverged (ost (pass_scan s t pn nf todo)) = diverged s.
 Proof. revert s. induction todo as [|[x d] r IH]; intros s; cbn [pass_scan]; [reflexivity|].
-  repeat first [rewrite IH | frame1]. Qed.
-#[export] Hint Rewrite fr_diverged_pass_scan : fr.
+  repeat first [rewrite IH | frame1_diverged]. Qed.
+#[export] Hint Rewrite fr_diverged_pass_scan : fr fr_diverged.
 Lemma fr_g_overdue_pass_scan s t pn nf todo : g_overdue (ost (pass_scan s t pn nf todo)) = g_overdue s.
 Proof. revert s. induction todo as [|[x d] r IH]; intros s; cbn [pass_scan]; [reflexivity|].
-  repeat first [rewrite IH | frame1]. Qed.
-#[export] Hint Rewrite fr_g_overdue_pass_scan : fr.
+  repeat first [rewrite IH | frame1_g_overdue]. Qed.
+#[export] Hint Rewrite fr_g_overdue_pass_scan : fr fr_g_overdue.
 Lemma fr_g_inflight_pass_scan s t pn nf todo : g_inflight (ost (pass_scan s t pn nf todo)) = g_inflight s.
 Proof. revert s. induction todo as [|[x d] r IH]; intros s; cbn [pass_scan]; [reflexivity|].
-  repeat first [rewrite IH | frame1]. Qed.
-#[export] Hint Rewrite fr_g_inflight_pass_scan : fr.
+  repeat first [rewrite IH | frame1_g_inflight]. Qed.
+#[export] Hint Rewrite fr_g_inflight_pass_scan : fr fr_g_inflight.
 Lemma fr_g_maxdur_pass_scan s t pn nf todo : g_maxdur (ost (pass_scan s t pn nf todo)) = g_maxdur s.
 Proof. revert s. induction todo as [|[x d] r IH]; intros s; cbn [pass_scan]; [reflexivity|].
-  repeat first [rewrite IH | frame1]. Qed.
-#[export] Hint Rewrite fr_g_maxdur_pass_scan : fr.
+  repeat first [rewrite IH | frame1_g_maxdur]. Qed.
+#[export] Hint Rewrite fr_g_maxdur_pass_scan : fr fr_g_maxdur.
 Lemma fr_now_pass_error s t p e : now (ost (pass_error s t p e)) = now s.
-Proof. intros. unfold pass_error. frame. Qed.
-#[export] Hint Rewrite fr_now_pass_error : fr.
+Proof. intros. unfold pass_error. frame_now. Qed.
+#[export] Hint Rewrite fr_now_pass_error : fr fr_now.
 Lemma fr_svcs_pass_error s t p e : svcs (ost (pass_error s t p e)) = svcs s.
-Proof. intros. unfold pass_error. frame. Qed.
-#[export] Hint Rewrite fr_svcs_pass_error : fr.
+Proof. intros. unfold pass_error. frame_svcs. Qed.
+#[export] Hint Rewrite fr_svcs_pass_error : fr fr_svcs.
 Lemma fr_routed_pass_error s t p e : routed (ost (pass_error s t p e)) = routed s.
-Proof. intros. unfold pass_error. frame. Qed.
-#[export] Hint Rewrite fr_routed_pass_error : fr.
+Proof. intros. unfold pass_error. frame_routed. Qed.
+#[export] Hint Rewrite fr_routed_pass_error : fr fr_routed.
 Lemma fr_rtask_pass_error s t p e : rtask (ost (pass_error s t p e)) = rtask s.
-Proof. intros. unfold pass_error. frame. Qed.
-#[export] Hint Rewrite fr_rtask_pass_error : fr.
+Proof. intros. unfold pass_error. frame_rtask. Qed.
+#[export] Hint Rewrite fr_rtask_pass_error : fr fr_rtask.
 Lemma fr_ntasks_pass_error s t p e : ntasks (ost (pass_error s t p e)) = ntasks s.
-Proof. intros. unfold pass_error. frame. Qed.
-#[export] Hint Rewrite fr_ntasks_pass_error : fr.
+Proof. intros. unfold pass_error. frame_ntasks. Qed.
+#[export] Hint Rewrite fr_ntasks_pass_error : fr fr_ntasks.
 Lemma fr_calls_pass_error s t p e : calls (ost (pass_error s t p e)) = calls s.
-Proof. intros. unfold pass_error. frame. Qed.
-#[export] Hint Rewrite fr_calls_pass_error : fr.
+Proof. intros. unfold pass_error. frame_calls. Qed.
+#[export] Hint Rewrite fr_calls_pass_error : fr fr_calls.
 Lemma fr_ready_pass_error s t p e : ready (ost (pass_error s t p e)) = ready s.
-Proof. intros. unfold pass_error. frame. Qed.
-#[export] Hint Rewrite fr_ready_pass_error : fr.
+Proof. intros. unfold pass_error. frame_ready. Qed.
+#[export] Hint Rewrite fr_ready_pass_error : fr fr_ready.
 Lemma fr_pub_pass_error s t p e : pub (ost (pass_error s t p e)) = pub s.
-Proof. intros. unfold pass_error. frame. Qed.
-#[export] Hint Rewrite fr_pub_pass_error : fr.
+Proof. intros. unfold pass_error. frame_pub. Qed.
+#[export] Hint Rewrite fr_pub_pass_error : fr fr_pub.
 Lemma fr_nsid_pass_error s t p e : nsid (ost (pass_error s t p e)) = nsid s.
-Proof. intros. unfold pass_error. frame. Qed.
-#[export] Hint Rewrite fr_nsid_pass_error : fr.
+Proof. intros. unfold pass_error. frame_nsid. Qed.
+#[export] Hint Rewrite fr_nsid_pass_error : fr fr_nsid.
 Lemma fr_lapsed_pass_error s t p e : lapsed (ost (pass_error s t p e)) = lapsed s.
-Proof. intros. unfold pass_error. frame. Qed.
-#[export] Hint Rewrite fr_lapsed_pass_error : fr.
+Proof. intros. unfold pass_error. frame_lapsed. Qed.
+#[export] Hint Rewrite fr_lapsed_pass_error : fr fr_lapsed.
 Lemma fr_diverged_pass_error s t p e : diverged (ost (pass_error s t p e)) = diverged s.
-Proof. intros. unfold pass_error. frame. Qed.
-#[export] Hint Rewrite fr_diverged_pass_error : fr.
+Proof. intros. unfold pass_error. frame_diverged. Qed.
+#[export] Hint Rewrite fr_diverged_pass_error : fr fr_diverged.
 Lemma fr_g_overdue_pass_error s t p e : g_overdue (ost (pass_error s t p e)) = g_overdue s.
-Proof. intros. unfold pass_error. frame. Qed.
-#[export] Hint Rewrite fr_g_overdue_pass_error : fr.
+Proof. intros. unfold pass_error. frame_g_overdue. Qed.
+#[export] Hint Rewrite fr_g_overdue_pass_error : fr fr_g_overdue.
 Lemma fr_g_inflight_pass_error s t p e : g_inflight (ost (pass_error s t p e)) = g_inflight s.
-Proof. intros. unfold pass_error. frame. Qed.
-#[export] Hint Rewrite fr_g_inflight_pass_error : fr.
+Proof. intros. unfold pass_error. frame_g_inflight. Qed.
+#[export] Hint Rewrite fr_g_inflight_pass_error : fr fr_g_inflight.
 Lemma fr_g_maxdur_pass_error s t p e : g_maxdur (ost (pass_error s t p e)) = g_maxdur s.
-Proof. intros. unfold pass_error. frame. Qed.
-#[export] Hint Rewrite fr_g_maxdur_pass_error : fr.
+Proof. intros. unfold pass_error. frame_g_maxdur. Qed.
+#[export] Hint Rewrite fr_g_maxdur_pass_error : fr fr_g_maxdur.
 Lemma fr_now_pass_grant s t p x g : now (ost (pass_grant s t p x g)) = now s.
-Proof. intros. unfold pass_grant. frame. Qed.
-#[export] Hint Rewrite fr_now_pass_grant : fr.
+Proof. intros. unfold pass_grant. frame_now. Qed.
+#[export] Hint Rewrite fr_now_pass_grant : fr fr_now.
 Lemma fr_svcs_pass_grant s t p x g : svcs (ost (pass_grant s t p x g)) = svcs s.
-Proof. intros. unfold pass_grant. frame. Qed.
-#[export] Hint Rewrite fr_svcs_pass_grant : fr.
+Proof. intros. unfold pass_grant. frame_svcs. Qed.
+#[export] Hint Rewrite fr_svcs_pass_grant : fr fr_svcs.
 Lemma fr_routed_pass_grant s t p x g : routed (ost (pass_grant s t p x g)) = routed s.
-Proof. intros. unfold pass_grant. frame. Qed.
-#[export] Hint Rewrite fr_routed_pass_grant : fr.
+Proof. intros. unfold pass_grant. frame_routed. Qed.
+#[export] Hint Rewrite fr_routed_pass_grant : fr fr_routed.
 Lemma fr_avail_pass_grant s t p x g : avail (ost (pass_grant s t p x g)) = avail s.
-Proof. intros. unfold pass_grant. frame. Qed.
-#[export] Hint Rewrite fr_avail_pass_grant : fr.
+Proof. intros. unfold pass_grant. frame_avail. Qed.
+#[export] Hint Rewrite fr_avail_pass_grant : fr fr_avail.
 Lemma fr_evlog_pass_grant s t p x g : evlog (ost (pass_grant s t p x g)) = evlog s.
-Proof. intros. unfold pass_grant. frame. Qed.
-#[export] Hint Rewrite fr_evlog_pass_grant : fr.
+Proof. intros. unfold pass_grant. frame_evlog. Qed.
+#[export] Hint Rewrite fr_evlog_pass_grant : fr fr_evlog.
 Lemma fr_rtask_pass_grant s t p x g : rtask (ost (pass_grant s t p x g)) = rtask s.
-Proof. intros. unfold pass_grant. frame. Qed.
-#[export] Hint Rewrite fr_rtask_pass_grant : fr.
+Proof. intros. unfold pass_grant. frame_rtask. Qed.
+#[export] Hint Rewrite fr_rtask_pass_grant : fr fr_rtask.
 Lemma fr_ntasks_pass_grant s t p x g : ntasks (ost (pass_grant s t p x g)) = ntasks s.
-Proof. intros. unfold pass_grant. frame. Qed.
-#[export] Hint Rewrite fr_ntasks_pass_grant : fr.
+Proof. intros. unfold pass_grant. frame_ntasks. Qed.
+#[export] Hint Rewrite fr_ntasks_pass_grant : fr fr_ntasks.
 Lemma fr_calls_pass_grant s t p x g : calls (ost (pass_grant s t p x g)) = calls s.
-Proof. intros. unfold pass_grant. frame. Qed.
-#[export] Hint Rewrite fr_calls_pass_grant : fr.
+Proof. intros. unfold pass_grant. frame_calls. Qed.
+#[export] Hint Rewrite fr_calls_pass_grant : fr fr_calls.
 Lemma fr_ready_pass_grant s t p x g : ready (ost (pass_grant s t p x g)) = ready s.
-Proof. intros. unfold pass_grant. frame. Qed.
-#[export] Hint Rewrite fr_ready_pass_grant : fr.
+Proof. intros. unfold pass_grant. frame_ready. Qed.
+#[export] Hint Rewrite fr_ready_pass_grant : fr fr_ready.
 Lemma fr_pub_pass_grant s t p x g : pub (ost (pass_grant s t p x g)) = pub s.
-Proof. intros. unfold pass_grant. frame. Qed.
-#[export] Hint Rewrite fr_pub_pass_grant : fr.
+Proof. intros. unfold pass_grant. frame_pub. Qed.
+#[export] Hint Rewrite fr_pub_pass_grant : fr fr_pub.
 Lemma fr_nsid_pass_grant s t p x g : nsid (ost (pass_grant s t p x g)) = nsid s.
-Proof. intros. unfold pass_grant. frame. Qed.
-#[export] Hint Rewrite fr_nsid_pass_grant : fr.
+Proof. intros. unfold pass_grant. frame_nsid. Qed.
+#[export] Hint Rewrite fr_nsid_pass_grant : fr fr_nsid.
 Lemma fr_lapsed_pass_grant s t p x g : lapsed (ost (pass_grant s t p x g)) = lapsed s.
-Proof. intros. unfold pass_grant. frame. Qed.
-#[export] Hint Rewrite fr_lapsed_pass_grant : fr.
+Proof. intros. unfold pass_grant. frame_lapsed. Qed.
+#[export] Hint Rewrite fr_lapsed_pass_grant : fr fr_lapsed.
 Lemma fr_diverged_pass_grant s t p x g : diverged (ost (pass_grant s t p x g)) = diverged s.
-Proof. intros. unfold pass_grant. frame. Qed.
-#[export] Hint Rewrite fr_diverged_pass_grant : fr.
+Proof. intros. unfold pass_grant. frame_diverged. Qed.
+#[export] Hint Rewrite fr_diverged_pass_grant : fr fr_diverged.
 Lemma fr_g_overdue_pass_grant s t p x g : g_overdue (ost (pass_grant s t p x g)) = g_overdue s.
-Proof. intros. unfold pass_grant. frame. Qed.
-#[export] Hint Rewrite fr_g_overdue_pass_grant : fr.
+Proof. intros. unfold pass_grant. frame_g_overdue. Qed.
+#[export] Hint Rewrite fr_g_overdue_pass_grant : fr fr_g_overdue.
 Lemma fr_g_inflight_pass_grant s t p x g : g_inflight (ost (pass_grant s t p x g)) = g_inflight s.
-Proof. intros. unfold pass_grant. frame. Qed.
-#[export] Hint Rewrite fr_g_inflight_pass_grant : fr.
+Proof. intros. unfold pass_grant. frame_g_inflight. Qed.
+#[export] Hint Rewrite fr_g_inflight_pass_grant : fr fr_g_inflight.
 Lemma fr_g_maxdur_pass_grant s t p x g : g_maxdur (ost (pass_grant s t p x g)) = g_maxdur s.
-Proof. intros. unfold pass_grant. frame. Qed.
-#[export] Hint Rewrite fr_g_maxdur_pass_grant : fr.
+Proof. intros. unfold pass_grant. frame_g_maxdur. Qed.
+#[export] Hint Rewrite fr_g_maxdur_pass_grant : fr fr_g_maxdur.
 Lemma fr_now_pass_resume s t p st rho hdr : now (ost (pass_resume s t p st rho hdr)) = now s.
-Proof. intros. unfold pass_resume. frame. Qed.
-#[export] Hint Rewrite fr_now_pass_resume : fr.
+Proof. intros. unfold pass_resume. frame_now. Qed.
+#[export] Hint Rewrite fr_now_pass_resume : fr fr_now.
 Lemma fr_svcs_pass_resume s t p st rho hdr : svcs (ost (pass_resume s t p st rho hdr)) = svcs s.
-Proof. intros. unfold pass_resume. frame. Qed.
-#[export] Hint Rewrite fr_svcs_pass_resume : fr.
+Proof. intros. unfold pass_resume. frame_svcs. Qed.
+#[export] Hint Rewrite fr_svcs_pass_resume : fr fr_svcs.
 Lemma fr_rtask_pass_resume s t p st rho hdr : rtask (ost (pass_resume s t p st rho hdr)) = rtask s.
-Proof. intros. unfold pass_resume. frame. Qed.
-#[export] Hint Rewrite fr_rtask_pass_resume : fr.
+Proof. intros. unfold pass_resume. frame_rtask. Qed.
+#[export] Hint Rewrite fr_rtask_pass_resume : fr fr_rtask.
 Lemma fr_ntasks_pass_resume s t p st rho hdr : ntasks (ost (pass_resume s t p st rho hdr)) = ntasks s.
-Proof. intros. unfold pass_resume. frame. Qed.
-#[export] Hint Rewrite fr_ntasks_pass_resume : fr.
+Proof. intros. unfold pass_resume. frame_ntasks. Qed.
+#[export] Hint Rewrite fr_ntasks_pass_resume : fr fr_ntasks.
 Lemma fr_calls_pass_resume s t p st rho hdr : calls (ost (pass_resume s t p st rho hdr)) = calls s.
-Proof. intros. unfold pass_resume. frame. Qed.
-#[export] Hint Rewrite fr_calls_pass_resume : fr.
+Proof. intros. unfold pass_resume. frame_calls. Qed.
+#[export] Hint Rewrite fr_calls_pass_resume : fr fr_calls.
 Lemma fr_ready_pass_resume s t p st rho hdr : ready (ost (pass_resume s t p st rho hdr)) = ready s.
-Proof. intros. unfold pass_resume. frame. Qed.
-#[export] Hint Rewrite fr_ready_pass_resume : fr.
+Proof. intros. unfold pass_resume. frame_ready. Qed.
+#[export] Hint Rewrite fr_ready_pass_resume : fr fr_ready.
 Lemma fr_pub_pass_resume s t p st rho hdr : pub (ost (pass_resume s t p st rho hdr)) = pub s.
-Proof. intros. unfold pass_resume. frame. Qed.
-#[export] Hint Rewrite fr_pub_pass_resume : fr.
+Proof. intros. unfold pass_resume. frame_pub. Qed.
+#[export] Hint Rewrite fr_pub_pass_resume : fr fr_pub.
 Lemma fr_nsid_pass_resume s t p st rho hdr : nsid (ost (pass_resume s t p st rho hdr)) = nsid s.
-Proof. intros. unfold pass_resume. frame. Qed.
-#[export] Hint Rewrite fr_nsid_pass_resume : fr.
+Proof. intros. unfold pass_resume. frame_nsid. Qed.
+#[export] Hint Rewrite fr_nsid_pass_resume : fr fr_nsid.
 Lemma fr_lapsed_pass_resume s t p st rho hdr : lapsed (ost (pass_resume s t p st rho hdr)) = lapsed s.
-Proof. intros. unfold pass_resume. frame. Qed.
-#[export] Hint Rewrite fr_lapsed_pass_resume : fr.
+Proof. intros. unfold pass_resume. frame_lapsed. Qed.
+#[export] Hint Rewrite fr_lapsed_pass_resume : fr fr_lapsed.
 Lemma fr_diverged_pass_resume s t p st rho hdr : diverged (ost (pass_resume s t p st rho hdr)) = diverged s.
-Proof. intros. unfold pass_resume. frame. Qed.
-#[export] Hint Rewrite fr_diverged_pass_resume : fr.
+Proof. intros. unfold pass_resume. frame_diverged. Qed.
+#[export] Hint Rewrite fr_diverged_pass_resume : fr fr_diverged.
 Lemma fr_g_overdue_pass_resume s t p st rho hdr : g_overdue (ost (pass_resume s t p st rho hdr)) = g_overdue s.
-Proof. intros. unfold pass_resume. frame. Qed.
-#[export] Hint Rewrite fr_g_overdue_pass_resume : fr.
+Proof. intros. unfold pass_resume. frame_g_overdue. Qed.
+#[export] Hint Rewrite fr_g_overdue_pass_resume : fr fr_g_overdue.
 Lemma fr_g_inflight_pass_resume s t p st rho hdr : g_inflight (ost (pass_resume s t p st rho hdr)) = g_inflight s.
-Proof. intros. unfold pass_resume. frame. Qed.
-#[export] Hint Rewrite fr_g_inflight_pass_resume : fr.
+Proof. intros. unfold pass_resume. frame_g_inflight. Qed.
+#[export] Hint Rewrite fr_g_inflight_pass_resume : fr fr_g_inflight.
 Lemma fr_g_maxdur_pass_resume s t p st rho hdr : g_maxdur (ost (pass_resume s t p st rho hdr)) = g_maxdur s.
-Proof. intros. unfold pass_resume. frame. Qed.
-#[export] Hint Rewrite fr_g_maxdur_pass_resume : fr.
+Proof. intros. unfold pass_resume. frame_g_maxdur. Qed.
+#[export] Hint Rewrite fr_g_maxdur_pass_resume : fr fr_g_maxdur.
 Lemma fr_now_run_pass s t : now (ost (run_pass s t)) = now s.
-Proof. intros. unfold run_pass. frame. Qed.
-#[export] Hint Rewrite fr_now_run_pass : fr.
+Proof. intros. unfold run_pass. frame_now. Qed.
+#[export] Hint Rewrite fr_now_run_pass : fr fr_now.
 Lemma fr_svcs_run_pass s t : svcs (ost (run_pass s t)) = svcs s.
-Proof. intros. unfold run_pass. frame. Qed.
-#[export] Hint Rewrite fr_svcs_run_pass : fr.
+Proof. intros. unfold run_pass. frame_svcs. Qed.
+#[export] Hint Rewrite fr_svcs_run_pass : fr fr_svcs.
 Lemma fr_routed_run_pass s t : routed (ost (run_pass s t)) = routed s.
-Proof. intros. unfold run_pass. frame. Qed.
-#[export] Hint Rewrite fr_routed_run_pass : fr.
+Proof. intros. unfold run_pass. frame_routed. Qed.
+#[export] Hint Rewrite fr_routed_run_pass : fr fr_routed.
 Lemma fr_avail_run_pass s t : avail (ost (run_pass s t)) = avail s.
-Proof. intros. unfold run_pass. frame. Qed.
-#[export] Hint Rewrite fr_avail_run_pass : fr.
+Proof. intros. unfold run_pass. frame_avail. Qed.
+#[export] Hint Rewrite fr_avail_run_pass : fr fr_avail.
 Lemma fr_evlog_run_pass s t : evlog (ost (run_pass s t)) = evlog s.
-Proof. intros. unfold run_pass. frame. Qed.
-#[export] Hint Rewrite fr_evlog_run_pass : fr.
+Proof. intros. unfold run_pass. frame_evlog. Qed.
+#[export] Hint Rewrite fr_evlog_run_pass : fr fr_evlog.
 Lemma fr_rtask_run_pass s t : rtask (ost (run_pass s t)) = rtask s.
-Proof. intros. unfold run_pass. frame. Qed.
-#[export] Hint Rewrite fr_rtask_run_pass : fr.
+Proof. intros. unfold run_pass. frame_rtask. Qed.
+#[export] Hint Rewrite fr_rtask_run_pass : fr fr_rtask.
 Lemma fr_ntasks_run_pass s t : ntasks (ost (run_pass s t)) = ntasks s.
-Proof. intros. unfold run_pass. frame. Qed.
-#[export] Hint Rewrite fr_ntasks_run_pass : fr.
+Proof. intros. unfold run_pass. frame_ntasks. Qed.
+#[export] Hint Rewrite fr_ntasks_run_pass : fr fr_ntasks.
 Lemma fr_calls_run_pass s t : calls (ost (run_pass s t)) = calls s.
-Proof. intros. unfold run_pass. frame. Qed.
-#[export] Hint Rewrite fr_calls_run_pass : fr.
+Proof. intros. unfold run_pass. frame_calls. Qed.
+#[export] Hint Rewrite fr_calls_run_pass : fr fr_calls.
 Lemma fr_ready_run_pass s t : ready (ost (run_pass s t)) = ready s.
-Proof. intros. unfold run_pass. frame. Qed.
-#[export] Hint Rewrite fr_ready_run_pass : fr.
+Proof. intros. unfold run_pass. frame_ready. Qed.
+#[export] Hint Rewrite fr_ready_run_pass : fr fr_ready.
 Lemma fr_pub_run_pass s t : pub (ost (run_pass s t)) = pub s.
-Proof. intros. unfold run_pass. frame. Qed.
-#[export] Hint Rewrite fr_pub_run_pass : fr.
+Proof. intros. unfold run_pass. frame_pub. Qed.
+#[export] Hint Rewrite fr_pub_run_pass : fr fr_pub.
 Lemma fr_nsid_run_pass s t : nsid (ost (run_pass s t)) = nsid s.
-Proof. intros. unfold run_pass. frame. Qed.
-#[export] Hint Rewrite fr_nsid_run_pass : fr.
+Proof. intros. unfold run_pass. frame_nsid. Qed.
+#[export] Hint Rewrite fr_nsid_run_pass : fr fr_nsid.
 Lemma fr_lapsed_run_pass s t : lapsed (ost (run_pass s t)) = lapsed s.
-Proof. intros. unfold run_pass. frame. Qed.
-#[export] Hint Rewrite fr_lapsed_run_pass : fr.
+Proof. intros. unfold run_pass. frame_lapsed. Qed.
+#[export] Hint Rewrite fr_lapsed_run_pass : fr fr_lapsed.
 Lemma fr_diverged_run_pass s t : diverged (ost (run_pass s t)) = diverged s.
-Proof. intros. unfold run_pass. frame. Qed.
-#[export] Hint Rewrite fr_diverged_run_pass : fr.
+Proof. intros. unfold run_pass. frame_diverged. Qed.
+#[export] Hint Rewrite fr_diverged_run_pass : fr fr_diverged.
 Lemma fr_g_inflight_run_pass s t : g_inflight (ost (run_pass s t)) = g_inflight s.
-Proof. intros. unfold run_pass. frame. Qed.
-#[export] Hint Rewrite fr_g_inflight_run_pass : fr.
+Proof. intros. unfold run_pass. frame_g_inflight. Qed.
+#[export] Hint Rewrite fr_g_inflight_run_pass : fr fr_g_inflight.
 Lemma fr_g_maxdur_run_pass s t : g_maxdur (ost (run_pass s t)) = g_maxdur s.
-Proof. intros. unfold run_pass. frame. Qed.
-#[export] Hint Rewrite fr_g_maxdur_run_pass : fr.
+Proof. intros. unfold run_pass. frame_g_maxdur. Qed.
+#[export] Hint Rewrite fr_g_maxdur_run_pass : fr fr_g_maxdur.
 Lemma fr_now_loop_head fuel s t : now (loop_head fuel s t) = now s.
-Proof. induction fuel as [|f IH]; intros s t; cbn [loop_head]; repeat first [rewrite IH | frame1]. Qed.
-#[export] Hint Rewrite fr_now_loop_head : fr.
+Proof. revert s t. induction fuel as [|f IH]; intros s t; cbn [loop_head]; repeat first [rewrite IH | frame1_now]. Qed.
+#[export] Hint Rewrite fr_now_loop_head : fr fr_now.
 Lemma fr_svcs_loop_head fuel s t : svcs (loop_head fuel s t) = svcs s.
-Proof. induction fuel as [|f IH]; intros s t; cbn [loop_head]; repeat first [rewrite IH | frame1]. Qed.
-#[export] Hint Rewrite fr_svcs_loop_head : fr.
+Proof. revert s t. induction fuel as [|f IH]; intros s t; cbn [loop_head]; repeat first [rewrite IH | frame1_svcs]. Qed.
+#[export] Hint Rewrite fr_svcs_loop_head : fr fr_svcs.
 Lemma fr_routed_loop_head fuel s t : routed (loop_head fuel s t) = routed s.
-Proof. induction fuel as [|f IH]; intros s t; cbn [loop_head]; repeat first [rewrite IH | frame1]. Qed.
-#[export] Hint Rewrite fr_routed_loop_head : fr.
+Proof. revert s t. induction fuel as [|f IH]; intros s t; cbn [loop_head]; repeat first [rewrite IH | frame1_routed]. Qed.
+#[export] Hint Rewrite fr_routed_loop_head : fr fr_routed.
 Lemma fr_avail_loop_head fuel s t : avail (loop_head fuel s t) = avail s.
-Proof. induction fuel as [|f IH]; intros s t; cbn [loop_head]; repeat first [rewrite IH | frame1]. Qed.
-#[export] Hint Rewrite fr_avail_loop_head : fr.
+Proof. revert s t. induction fuel as [|f IH]; intros s t; cbn [loop_head]; repeat first [rewrite IH | frame1_avail]. Qed.
+#[export] Hint Rewrite fr_avail_loop_head : fr fr_avail.
 Lemma fr_evlog_loop_head fuel s t : evlog (loop_head fuel s t) = evlog s.
-Proof. induction fuel as [|f IH]; intros s t; cbn [loop_head]; repeat first [rewrite IH | frame1]. Qed.
-#[export] Hint Rewrite fr_evlog_loop_head : fr.
+Proof. revert s t. induction fuel as [|f IH]; intros s t; cbn [loop_head]; repeat first [rewrite IH | frame1_evlog]. Qed.
+#[export] Hint Rewrite fr_evlog_loop_head : fr fr_evlog.
 Lemma fr_rtask_loop_head fuel s t : rtask (loop_head fuel s t) = rtask s.
-Proof. induction fuel as [|f IH]; intros s t; cbn [loop_head]; repeat first [rewrite IH | frame1]. Qed.
-#[export] Hint Rewrite fr_rtask_loop_head : fr.
+Proof. revert s t. induction fuel as [|f IH]; intros s t; cbn [loop_head]; repeat first [rewrite IH | frame1_rtask]. Qed.
+#[export] Hint Rewrite fr_rtask_loop_head : fr fr_rtask.
 Lemma fr_ntasks_loop_head fuel s t : ntasks (loop_head fuel s t) = ntasks s.
-Proof. induction fuel as [|f IH]; intros s t; cbn [loop_head]; repeat first [rewrite IH | frame1]. Qed.
-#[export] Hint Rewrite fr_ntasks_loop_head : fr.
+Proof. revert s t. induction fuel as [|f IH]; intros s t; cbn [loop_head]; repeat first [rewrite IH | frame1_ntasks]. Qed.
+#[export] Hint Rewrite fr_ntasks_loop_head : fr fr_ntasks.
 Lemma fr_calls_loop_head fuel s t : calls (loop_head fuel s t) = calls s.
-Proof. induction fuel as [|f IH]; intros s t; cbn [loop_head]; repeat first [rewrite IH | frame1]. Qed.
-#[export] Hint Rewrite fr_calls_loop_head : fr.
+Proof. revert s t. induction fuel as [|f IH]; intros s t; cbn [loop_head]; repeat first [rewrite IH | frame1_calls]. Qed.
+#[export] Hint Rewrite fr_calls_loop_head : fr fr_calls.
 Lemma fr_pub_loop_head fuel s t : pub (loop_head fuel s t) = pub s.
-Proof. induction fuel as [|f IH]; intros s t; cbn [loop_head]; repeat first [rewrite IH | frame1]. Qed.
-#[export] Hint Rewrite fr_pub_loop_head : fr.
+Proof. revert s t. induction fuel as [|f IH]; intros s t; cbn [loop_head]; repeat first [rewrite IH | frame1_pub]. Qed.
+#[export] Hint Rewrite fr_pub_loop_head : fr fr_pub.
 Lemma fr_nsid_loop_head fuel s t : nsid (loop_head fuel s t) = nsid s.
-Proof. induction fuel as [|f IH]; intros s t; cbn [loop_head]; repeat first [rewrite IH | frame1]. Qed.
-#[export] Hint Rewrite fr_nsid_loop_head : fr.
+Proof. revert s t. induction fuel as [|f IH]; intros s t; cbn [loop_head]; repeat first [rewrite IH | frame1_nsid]. Qed.
+#[export] Hint Rewrite fr_nsid_loop_head : fr fr_nsid.
 Lemma fr_lapsed_loop_head fuel s t : lapsed (loop_head fuel s t) = lapsed s.
-Proof. induction fuel as [|f IH]; intros s t; cbn [loop_head]; repeat first [rewrite IH | frame1]. Qed.
-#[export] Hint Rewrite fr_lapsed_loop_head : fr.
+Proof. revert s t. induction fuel as [|f IH]; intros s t; cbn [loop_head]; repeat first [rewrite IH | frame1_lapsed]. Qed.
+#[export] Hint Rewrite fr_lapsed_loop_head : fr fr_lapsed.
 Lemma fr_g_inflight_loop_head fuel s t : g_inflight (loop_head fuel s t) = g_inflight s.
-Proof. induction fuel as [|f IH]; intros s t; cbn [loop_head]; repeat first [rewrite IH | frame1]. Qed.
-#[export] Hint Rewrite fr_g_inflight_loop_head : fr.
+Proof. revert s t. induction fuel as [|f IH]; intros s t; cbn [loop_head]; repeat first [rewrite IH | frame1_g_inflight]. Qed.
+#[export] Hint Rewrite fr_g_inflight_loop_head : fr fr_g_inflight.
 Lemma fr_g_maxdur_loop_head fuel s t : g_maxdur (loop_head fuel s t) = g_maxdur s.
-Proof. induction fuel as [|f IH]; intros s t; cbn [loop_head]; repeat first [rewrite IH | frame1]. Qed.
-#[export] Hint Rewrite fr_g_maxdur_loop_head : fr.
+Proof. revert s t. induction fuel as [|f IH]; intros s t; cbn [loop_head]; repeat first [rewrite IH | frame1_g_maxdur]. Qed.
+#[export] Hint Rewrite fr_g_maxdur_loop_head : fr fr_g_maxdur.
+Lemma fr_now_after_pass_loop t o : now (after_pass_loop t o) = now (ost o).
+Proof. intros. unfold after_pass_loop. destruct o; frame_now. Qed.
+#[export] Hint Rewrite fr_now_after_pass_loop : fr fr_now.
+Lemma fr_svcs_after_pass_loop t o : svcs (after_pass_loop t o) = svcs (ost o).
+Proof. intros. unfold after_pass_loop. destruct o; frame_svcs. Qed.
+#[export] Hint Rewrite fr_svcs_after_pass_loop : fr fr_svcs.
+Lemma fr_routed_after_pass_loop t o : routed (after_pass_loop t o) = routed (ost o).
+Proof. intros. unfold after_pass_loop. destruct o; frame_routed. Qed.
+#[export] Hint Rewrite fr_routed_after_pass_loop : fr fr_routed.
+Lemma fr_avail_after_pass_loop t o : avail (after_pass_loop t o) = avail (ost o).
+Proof. intros. unfold after_pass_loop. destruct o; frame_avail. Qed.
+#[export] Hint Rewrite fr_avail_after_pass_loop : fr fr_avail.
+Lemma fr_evlog_after_pass_loop t o : evlog (after_pass_loop t o) = evlog (ost o).
+Proof. intros. unfold after_pass_loop. destruct o; frame_evlog. Qed.
+#[export] Hint Rewrite fr_evlog_after_pass_loop : fr fr_evlog.
+Lemma fr_rtask_after_pass_loop t o : rtask (after_pass_loop t o) = rtask (ost o).
+Proof. intros. unfold after_pass_loop. destruct o; frame_rtask. Qed.
+#[export] Hint Rewrite fr_rtask_after_pass_loop : fr fr_rtask.
+Lemma fr_ntasks_after_pass_loop t o : ntasks (after_pass_loop t o) = ntasks (ost o).
+Proof. intros. unfold after_pass_loop. destruct o; frame_ntasks. Qed.
+#[export] Hint Rewrite fr_ntasks_after_pass_loop : fr fr_ntasks.
+Lemma fr_calls_after_pass_loop t o : calls (after_pass_loop t o) = calls (ost o).
+Proof. intros. unfold after_pass_loop. destruct o; frame_calls. Qed.
+#[export] Hint Rewrite fr_calls_after_pass_loop : fr fr_calls.
+Lemma fr_pub_after_pass_loop t o : pub (after_pass_loop t o) = pub (ost o).
+Proof. intros. unfold after_pass_loop. destruct o; frame_pub. Qed.
+#[export] Hint Rewrite fr_pub_after_pass_loop : fr fr_pub.
+Lemma fr_nsid_after_pass_loop t o : nsid (after_pass_loop t o) = nsid (ost o).
+Proof. intros. unfold after_pass_loop. destruct o; frame_nsid. Qed.
+#[export] Hint Rewrite fr_nsid_after_pass_loop : fr fr_nsid.
+Lemma fr_lapsed_after_pass_loop t o : lapsed (after_pass_loop t o) = lapsed (ost o).
+Proof. intros. unfold after_pass_loop. destruct o; frame_lapsed. Qed.
+#[export] Hint Rewrite fr_lapsed_after_pass_loop : fr fr_lapsed.
+Lemma fr_g_inflight_after_pass_loop t o : g_inflight (after_pass_loop t o) = g_inflight (ost o).
+Proof. intros. unfold after_pass_loop. destruct o; frame_g_inflight. Qed.
+#[export] Hint Rewrite fr_g_inflight_after_pass_loop : fr fr_g_inflight.
+Lemma fr_g_maxdur_after_pass_loop t o : g_maxdur (after_pass_loop t o) = g_maxdur (ost o).
+Proof. intros. unfold after_pass_loop. destruct o; frame_g_maxdur. Qed.
+#[export] Hint Rewrite fr_g_maxdur_after_pass_loop : fr fr_g_maxdur.
+Lemma fr_now_after_pass_sub t auto now0 o : now (after_pass_sub t auto now0 o) = now (ost o).
+Proof. intros. unfold after_pass_sub. destruct o; frame_now. Qed.
+#[export] Hint Rewrite fr_now_after_pass_sub : fr fr_now.
+Lemma fr_svcs_after_pass_sub t auto now0 o : svcs (after_pass_sub t auto now0 o) = svcs (ost o).
+Proof. intros. unfold after_pass_sub. destruct o; frame_svcs. Qed.
+#[export] Hint Rewrite fr_svcs_after_pass_sub : fr fr_svcs.
+Lemma fr_routed_after_pass_sub t auto now0 o : routed (after_pass_sub t auto now0 o) = routed (ost o).
+Proof. intros. unfold after_pass_sub. destruct o; frame_routed. Qed.
+#[export] Hint Rewrite fr_routed_after_pass_sub : fr fr_routed.
+Lemma fr_avail_after_pass_sub t auto now0 o : avail (after_pass_sub t auto now0 o) = avail (ost o).
+Proof. intros. unfold after_pass_sub. destruct o; frame_avail. Qed.
+#[export] Hint Rewrite fr_avail_after_pass_sub : fr fr_avail.
+Lemma fr_evlog_after_pass_sub t auto now0 o : evlog (after_pass_sub t auto now0 o) = evlog (ost o).
+Proof. intros. unfold after_pass_sub. destruct o; frame_evlog. Qed.
+#[export] Hint Rewrite fr_evlog_after_pass_sub : fr fr_evlog.
+Lemma fr_calls_after_pass_sub t auto now0 o : calls (after_pass_sub t auto now0 o) = calls (ost o).
+Proof. intros. unfold after_pass_sub. destruct o; frame_calls. Qed.
+#[export] Hint Rewrite fr_calls_after_pass_sub : fr fr_calls.
+Lemma fr_nreqs_after_pass_sub t auto now0 o : nreqs (after_pass_sub t auto now0 o) = nreqs (ost o).
+Proof. intros. unfold after_pass_sub. destruct o; frame_nreqs. Qed.
+#[export] Hint Rewrite fr_nreqs_after_pass_sub : fr fr_nreqs.
+Lemma fr_pub_after_pass_sub t auto now0 o : pub (after_pass_sub t auto now0 o) = pub (ost o).
+Proof. intros. unfold after_pass_sub. destruct o; frame_pub. Qed.
+#[export] Hint Rewrite fr_pub_after_pass_sub : fr fr_pub.
+Lemma fr_nsid_after_pass_sub t auto now0 o : nsid (after_pass_sub t auto now0 o) = nsid (ost o).
+Proof. intros. unfold after_pass_sub. destruct o; frame_nsid. Qed.
+#[export] Hint Rewrite fr_nsid_after_pass_sub : fr fr_nsid.
+Lemma fr_lapsed_after_pass_sub t auto now0 o : lapsed (after_pass_sub t auto now0 o) = lapsed (ost o).
+Proof. intros. unfold after_pass_sub. destruct o; frame_lapsed. Qed.
+#[export] Hint Rewrite fr_lapsed_after_pass_sub : fr fr_lapsed.
+Lemma fr_diverged_after_pass_sub t auto now0 o : diverged (after_pass_sub t auto now0 o) = diverged (ost o).
+Proof. intros. unfold after_pass_sub. destruct o; frame_diverged. Qed.
+#[export] Hint Rewrite fr_diverged_after_pass_sub : fr fr_diverged.
+Lemma fr_g_overdue_after_pass_sub t auto now0 o : g_overdue (after_pass_sub t auto now0 o) = g_overdue (ost o).
+Proof. intros. unfold after_pass_sub. destruct o; frame_g_overdue. Qed.
+#[export] Hint Rewrite fr_g_overdue_after_pass_sub : fr fr_g_overdue.
+Lemma fr_g_maxdur_after_pass_sub t auto now0 o : g_maxdur (after_pass_sub t auto now0 o) = g_maxdur (ost o).
+Proof. intros. unfold after_pass_sub. destruct o; frame_g_maxdur. Qed.
+#[export] Hint Rewrite fr_g_maxdur_after_pass_sub : fr fr_g_maxdur.
 Lemma fr_now_sub_next s t auto now0 todo : now (sub_next s t auto now0 todo) = now s.
-Proof. intros. unfold sub_next. frame. Qed.
-#[export] Hint Rewrite fr_now_sub_next : fr.
+Proof. intros. unfold sub_next. frame_now. Qed.
+#[export] Hint Rewrite fr_now_sub_next : fr fr_now.
 Lemma fr_svcs_sub_next s t auto now0 todo : svcs (sub_next s t auto now0 todo) = svcs s.
-Proof. intros. unfold sub_next. frame. Qed.
-#[export] Hint Rewrite fr_svcs_sub_next : fr.
+Proof. intros. unfold sub_next. frame_svcs. Qed.
+#[export] Hint Rewrite fr_svcs_sub_next : fr fr_svcs.
 Lemma fr_subs_sub_next s t auto now0 todo : subs (sub_next s t auto now0 todo) = subs s.
-Proof. intros. unfold sub_next. frame. Qed.
-#[export] Hint Rewrite fr_subs_sub_next : fr.
+Proof. intros. unfold sub_next. frame_subs. Qed.
+#[export] Hint Rewrite fr_subs_sub_next : fr fr_subs.
 Lemma fr_routed_sub_next s t auto now0 todo : routed (sub_next s t auto now0 todo) = routed s.
-Proof. intros. unfold sub_next. frame. Qed.
-#[export] Hint Rewrite fr_routed_sub_next : fr.
+Proof. intros. unfold sub_next. frame_routed. Qed.
+#[export] Hint Rewrite fr_routed_sub_next : fr fr_routed.
 Lemma fr_avail_sub_next s t auto now0 todo : avail (sub_next s t auto now0 todo) = avail s.
-Proof. intros. unfold sub_next. frame. Qed.
-#[export] Hint Rewrite fr_avail_sub_next : fr.
+Proof. intros. unfold sub_next. frame_avail. Qed.
+#[export] Hint Rewrite fr_avail_sub_next : fr fr_avail.
 Lemma fr_evlog_sub_next s t auto now0 todo : evlog (sub_next s t auto now0 todo) = evlog s.
-Proof. intros. unfold sub_next. frame. Qed.
-#[export] Hint Rewrite fr_evlog_sub_next : fr.
+Proof. intros. unfold sub_next. frame_evlog. Qed.
+#[export] Hint Rewrite fr_evlog_sub_next : fr fr_evlog.
 Lemma fr_calls_sub_next s t auto now0 todo : calls (sub_next s t auto now0 todo) = calls s.
-Proof. intros. unfold sub_next. frame. Qed.
-#[export] Hint Rewrite fr_calls_sub_next : fr.
+Proof. intros. unfold sub_next. frame_calls. Qed.
+#[export] Hint Rewrite fr_calls_sub_next : fr fr_calls.
 Lemma fr_pub_sub_next s t auto now0 todo : pub (sub_next s t auto now0 todo) = pub s.
-Proof. intros. unfold sub_next. frame. Qed.
-#[export] Hint Rewrite fr_pub_sub_next : fr.
+Proof. intros. unfold sub_next. frame_pub. Qed.
+#[export] Hint Rewrite fr_pub_sub_next : fr fr_pub.
 Lemma fr_nsid_sub_next s t auto now0 todo : nsid (sub_next s t auto now0 todo) = nsid s.
-Proof. intros. unfold sub_next. frame. Qed.
-#[export] Hint Rewrite fr_nsid_sub_next : fr.
+Proof. intros. unfold sub_next. frame_nsid. Qed.
+#[export] Hint Rewrite fr_nsid_sub_next : fr fr_nsid.
 Lemma fr_lapsed_sub_next s t auto now0 todo : lapsed (sub_next s t auto now0 todo) = lapsed s.
-Proof. intros. unfold sub_next. frame. Qed.
-#[export] Hint Rewrite fr_lapsed_sub_next : fr.
+Proof. intros. unfold sub_next. frame_lapsed. Qed.
+#[export] Hint Rewrite fr_lapsed_sub_next : fr fr_lapsed.
 Lemma fr_diverged_sub_next s t auto now0 todo : diverged (sub_next s t auto now0 todo) = diverged s.
-Proof. intros. unfold sub_next. frame. Qed.
-#[export] Hint Rewrite fr_diverged_sub_next : fr.
+Proof. intros. unfold sub_next. frame_diverged. Qed.
+#[export] Hint Rewrite fr_diverged_sub_next : fr fr_diverged.
 Lemma fr_g_overdue_sub_next s t auto now0 todo : g_overdue (sub_next s t auto now0 todo) = g_overdue s.
-Proof. intros. unfold sub_next. frame. Qed.
-#[export] Hint Rewrite fr_g_overdue_sub_next : fr.
+Proof. intros. unfold sub_next. frame_g_overdue. Qed.
+#[export] Hint Rewrite fr_g_overdue_sub_next : fr fr_g_overdue.
 Lemma fr_g_inflight_sub_next s t auto now0 todo : g_inflight (sub_next s t auto now0 todo) = g_inflight s.
-Proof. intros. unfold sub_next. frame. Qed.
-#[export] Hint Rewrite fr_g_inflight_sub_next : fr.
+Proof. intros. unfold sub_next. frame_g_inflight. Qed.
+#[export] Hint Rewrite fr_g_inflight_sub_next : fr fr_g_inflight.
 Lemma fr_g_maxdur_sub_next s t auto now0 todo : g_maxdur (sub_next s t auto now0 todo) = g_maxdur s.
-Proof. intros. unfold sub_next. frame. Qed.
-#[export] Hint Rewrite fr_g_maxdur_sub_next : fr.
+Proof. intros. unfold sub_next. frame_g_maxdur. Qed.
+#[export] Hint Rewrite fr_g_maxdur_sub_next : fr fr_g_maxdur.
 Lemma fr_now_sub_resume s t auto now0 todo v rho hdr : now (sub_resume s t auto now0 todo v rho hdr) = now s.
-Proof. intros. unfold sub_resume. frame. Qed.
-#[export] Hint Rewrite fr_now_sub_resume : fr.
+Proof. intros. unfold sub_resume. frame_now. Qed.
+#[export] Hint Rewrite fr_now_sub_resume : fr fr_now.
 Lemma fr_svcs_sub_resume s t auto now0 todo v rho hdr : svcs (sub_resume s t auto now0 todo v rho hdr) = svcs s.
-Proof. intros. unfold sub_resume. frame. Qed.
-#[export] Hint Rewrite fr_svcs_sub_resume : fr.
+Proof. intros. unfold sub_resume. frame_svcs. Qed.
+#[export] Hint Rewrite fr_svcs_sub_resume : fr fr_svcs.
 Lemma fr_avail_sub_resume s t auto now0 todo v rho hdr : avail (sub_resume s t auto now0 todo v rho hdr) = avail s.
-Proof. intros. unfold sub_resume. frame. Qed.
-#[export] Hint Rewrite fr_avail_sub_resume : fr.
+Proof. intros. unfold sub_resume. frame_avail. Qed.
+#[export] Hint Rewrite fr_avail_sub_resume : fr fr_avail.
 Lemma fr_evlog_sub_resume s t auto now0 todo v rho hdr : evlog (sub_resume s t auto now0 todo v rho hdr) = evlog s.
-Proof. intros. unfold sub_resume. frame. Qed.
-#[export] Hint Rewrite fr_evlog_sub_resume : fr.
+Proof. intros. unfold sub_resume. frame_evlog. Qed.
+#[export] Hint Rewrite fr_evlog_sub_resume : fr fr_evlog.
 Lemma fr_calls_sub_resume s t auto now0 todo v rho hdr : calls (sub_resume s t auto now0 todo v rho hdr) = calls s.
-Proof. intros. unfold sub_resume. frame. Qed.
-#[export] Hint Rewrite fr_calls_sub_resume : fr.
+Proof. intros. unfold sub_resume. frame_calls. Qed.
+#[export] Hint Rewrite fr_calls_sub_resume : fr fr_calls.
 Lemma fr_pub_sub_resume s t auto now0 todo v rho hdr : pub (sub_resume s t auto now0 todo v rho hdr) = pub s.
-Proof. intros. unfold sub_resume. frame. Qed.
-#[export] Hint Rewrite fr_pub_sub_resume : fr.
+Proof. intros. unfold sub_resume. frame_pub. Qed.
+#[export] Hint Rewrite fr_pub_sub_resume : fr fr_pub.
 Lemma fr_nsid_sub_resume s t auto now0 todo v rho hdr : nsid (sub_resume s t auto now0 todo v rho hdr) = nsid s.
-Proof. intros. unfold sub_resume. frame. Qed.
-#[export] Hint Rewrite fr_nsid_sub_resume : fr.
+Proof. intros. unfold sub_resume. frame_nsid. Qed.
+#[export] Hint Rewrite fr_nsid_sub_resume : fr fr_nsid.
 Lemma fr_lapsed_sub_resume s t auto now0 todo v rho hdr : lapsed (sub_resume s t auto now0 todo v rho hdr) = lapsed s.
-Proof. intros. unfold sub_resume. frame. Qed.
-#[export] Hint Rewrite fr_lapsed_sub_resume : fr.
+Proof. intros. unfold sub_resume. frame_lapsed. Qed.
+#[export] Hint Rewrite fr_lapsed_sub_resume : fr fr_lapsed.
 Lemma fr_diverged_sub_resume s t auto now0 todo v rho hdr : diverged (sub_resume s t auto now0 todo v rho hdr) = diverged s.
-Proof. intros. unfold sub_resume. frame. Qed.
-#[export] Hint Rewrite fr_diverged_sub_resume : fr.
+Proof. intros. unfold sub_resume. frame_diverged. Qed.
+#[export] Hint Rewrite fr_diverged_sub_resume : fr fr_diverged.
 Lemma fr_g_overdue_sub_resume s t auto now0 todo v rho hdr : g_overdue (sub_resume s t auto now0 todo v rho hdr) = g_overdue s.
-Proof. intros. unfold sub_resume. frame. Qed.
-#[export] Hint Rewrite fr_g_overdue_sub_resume : fr.
+Proof. intros. unfold sub_resume. frame_g_overdue. Qed.
+#[export] Hint Rewrite fr_g_overdue_sub_resume : fr fr_g_overdue.
 Lemma fr_g_maxdur_sub_resume s t auto now0 todo v rho hdr : g_maxdur (sub_resume s t auto now0 todo v rho hdr) = g_maxdur s.
-Proof. intros. unfold sub_resume. frame. Qed.
-#[export] Hint Rewrite fr_g_maxdur_sub_resume : fr.
+Proof. intros. unfold sub_resume. frame_g_maxdur. Qed.
+#[export] Hint Rewrite fr_g_maxdur_sub_resume : fr fr_g_maxdur.
 Lemma fr_now_start_body s t : now (start_body s t) = now s.
-Proof. intros. unfold start_body. frame. Qed.
-#[export] Hint Rewrite fr_now_start_body : fr.
+Proof. intros. unfold start_body. frame_now. Qed.
+#[export] Hint Rewrite fr_now_start_body : fr fr_now.
 Lemma fr_svcs_start_body s t : svcs (start_body s t) = svcs s.
-Proof. intros. unfold start_body. frame. Qed.
-#[export] Hint Rewrite fr_svcs_start_body : fr.
+Proof. intros. unfold start_body. frame_svcs. Qed.
+#[export] Hint Rewrite fr_svcs_start_body : fr fr_svcs.
 Lemma fr_avail_start_body s t : avail (start_body s t) = avail s.
-Proof. intros. unfold start_body. frame. Qed.
-#[export] Hint Rewrite fr_avail_start_body : fr.
+Proof. intros. unfold start_body. frame_avail. Qed.
+#[export] Hint Rewrite fr_avail_start_body : fr fr_avail.
 Lemma fr_evlog_start_body s t : evlog (start_body s t) = evlog s.
-Proof. intros. unfold start_body. frame. Qed.
-#[export] Hint Rewrite fr_evlog_start_body : fr.
+Proof. intros. unfold start_body. frame_evlog. Qed.
+#[export] Hint Rewrite fr_evlog_start_body : fr fr_evlog.
 Lemma fr_calls_start_body s t : calls (start_body s t) = calls s.
-Proof. intros. unfold start_body. frame. Qed.
-#[export] Hint Rewrite fr_calls_start_body : fr.
+Proof. intros. unfold start_body. frame_calls. Qed.
+#[export] Hint Rewrite fr_calls_start_body : fr fr_calls.
 Lemma fr_pub_start_body s t : pub (start_body s t) = pub s.
-Proof. intros. unfold start_body. frame. Qed.
-#[export] Hint Rewrite fr_pub_start_body : fr.
+Proof. intros. unfold start_body. frame_pub. Qed.
+#[export] Hint Rewrite fr_pub_start_body : fr fr_pub.
 Lemma fr_nsid_start_body s t : nsid (start_body s t) = nsid s.
-Proof. intros. unfold start_body. frame. Qed.
-#[export] Hint Rewrite fr_nsid_start_body : fr.
+Proof. intros. unfold start_body. frame_nsid. Qed.
+#[export] Hint Rewrite fr_nsid_start_body : fr fr_nsid.
 Lemma fr_lapsed_start_body s t : lapsed (start_body s t) = lapsed s.
-Proof. intros. unfold start_body. frame. Qed.
-#[export] Hint Rewrite fr_lapsed_start_body : fr.
+Proof. intros. unfold start_body. frame_lapsed. Qed.
+#[export] Hint Rewrite fr_lapsed_start_body : fr fr_lapsed.
 Lemma fr_g_maxdur_start_body s t : g_maxdur (start_body s t) = g_maxdur s.
-Proof. intros. unfold start_body. frame. Qed.
-#[export] Hint Rewrite fr_g_maxdur_start_body : fr.
+Proof. intros. unfold start_body. frame_g_maxdur. Qed.
+#[export] Hint Rewrite fr_g_maxdur_start_body : fr fr_g_maxdur.
 Lemma fr_now_step_task s t : now (step_task s t) = now s.
-Proof. intros. unfold step_task. frame. Qed.
-#[export] Hint Rewrite fr_now_step_task : fr.
+Proof. intros. unfold step_task. frame_now. Qed.
+#[export] Hint Rewrite fr_now_step_task : fr fr_now.
 Lemma fr_svcs_step_task s t : svcs (step_task s t) = svcs s.
-Proof. intros. unfold step_task. frame. Qed.
-#[export] Hint Rewrite fr_svcs_step_task : fr.
+Proof. intros. unfold step_task. frame_svcs. Qed.
+#[export] Hint Rewrite fr_svcs_step_task : fr fr_svcs.
 Lemma fr_calls_step_task s t : calls (step_task s t) = calls s.
-Proof. intros. unfold step_task. frame. Qed.
-#[export] Hint Rewrite fr_calls_step_task : fr.
+Proof. intros. unfold step_task. frame_calls. Qed.
+#[export] Hint Rewrite fr_calls_step_task : fr fr_calls.
 Lemma fr_pub_step_task s t : pub (step_task s t) = pub s.
-Proof. intros. unfold step_task. frame. Qed.
-#[export] Hint Rewrite fr_pub_step_task : fr.
+Proof. intros. unfold step_task. frame_pub. Qed.
+#[export] Hint Rewrite fr_pub_step_task : fr fr_pub.
 Lemma fr_nsid_step_task s t : nsid (step_task s t) = nsid s.
-Proof. intros. unfold step_task. frame. Qed.
-#[export] Hint Rewrite fr_nsid_step_task : fr.
+Proof. intros. unfold step_task. frame_nsid. Qed.
+#[export] Hint Rewrite fr_nsid_step_task : fr fr_nsid.
 Lemma fr_lapsed_step_task s t : lapsed (step_task s t) = lapsed s.
-Proof. intros. unfold step_task. frame. Qed.
-#[export] Hint Rewrite fr_lapsed_step_task : fr.
+Proof. intros. unfold step_task. frame_lapsed. Qed.
+#[export] Hint Rewrite fr_lapsed_step_task : fr fr_lapsed.
 Lemma fr_g_maxdur_step_task s t : g_maxdur (step_task s t) = g_maxdur s.
-Proof. intros. unfold step_task. frame. Qed.
-#[export] Hint Rewrite fr_g_maxdur_step_task : fr.
+Proof. intros. unfold step_task. frame_g_maxdur. Qed.
+#[export] Hint Rewrite fr_g_maxdur_step_task : fr fr_g_maxdur.
 Lemma fr_now_run_handle s h : now (run_handle s h) = now s.
-Proof. intros. unfold run_handle. frame. Qed.
-#[export] Hint Rewrite fr_now_run_handle : fr.
+Proof. intros. unfold run_handle. frame_now. Qed.
+#[export] Hint Rewrite fr_now_run_handle : fr fr_now.
 Lemma fr_svcs_run_handle s h : svcs (run_handle s h) = svcs s.
-Proof. intros. unfold run_handle. frame. Qed.
-#[export] Hint Rewrite fr_svcs_run_handle : fr.
+Proof. intros. unfold run_handle. frame_svcs. Qed.
+#[export] Hint Rewrite fr_svcs_run_handle : fr fr_svcs.
 Lemma fr_calls_run_handle s h : calls (run_handle s h) = calls s.
-Proof. intros. unfold run_handle. frame. Qed.
-#[export] Hint Rewrite fr_calls_run_handle : fr.
+Proof. intros. unfold run_handle. frame_calls. Qed.
+#[export] Hint Rewrite fr_calls_run_handle : fr fr_calls.
 Lemma fr_pub_run_handle s h : pub (run_handle s h) = pub s.
-Proof. intros. unfold run_handle. frame. Qed.
-#[export] Hint Rewrite fr_pub_run_handle : fr.
+Proof. intros. unfold run_handle. frame_pub. Qed.
+#[export] Hint Rewrite fr_pub_run_handle : fr fr_pub.
 Lemma fr_nsid_run_handle s h : nsid (run_handle s h) = nsid s.
-Proof. intros. unfold run_handle. frame. Qed.
-#[export] Hint Rewrite fr_nsid_run_handle : fr.
+Proof. intros. unfold run_handle. frame_nsid. Qed.
+#[export] Hint Rewrite fr_nsid_run_handle : fr fr_nsid.
 Lemma fr_lapsed_run_handle s h : lapsed (run_handle s h) = lapsed s.
-Proof. intros. unfold run_handle. frame. Qed.
-#[export] Hint Rewrite fr_lapsed_run_handle : fr.
+Proof. intros. unfold run_handle. frame_lapsed. Qed.
+#[export] Hint Rewrite fr_lapsed_run_handle : fr fr_lapsed.
 Lemma fr_g_maxdur_run_handle s h : g_maxdur (run_handle s h) = g_maxdur s.
-Proof. intros. unfold run_handle. frame. Qed.
-#[export] Hint Rewrite fr_g_maxdur_run_handle : fr.
+Proof. intros. unfold run_handle. frame_g_maxdur. Qed.
+#[export] Hint Rewrite fr_g_maxdur_run_handle : fr fr_g_maxdur.
 Lemma fr_now_iterate s : now (iterate s) = now s.
 Proof. intros. unfold iterate. rewrite (fold_left_pres now); [reflexivity | intros; apply fr_now_run_handle]. Qed.
-#[export] Hint Rewrite fr_now_iterate : fr.
+#[export] Hint Rewrite fr_now_iterate : fr fr_now.
 Lemma fr_svcs_iterate s : svcs (iterate s) = svcs s.
 Proof. intros. unfold iterate. rewrite (fold_left_pres svcs); [reflexivity | intros; apply fr_svcs_run_handle]. Qed.
-#[export] Hint Rewrite fr_svcs_iterate : fr.
+#[export] Hint Rewrite fr_svcs_iterate : fr fr_svcs.
 Lemma fr_calls_iterate s : calls (iterate s) = calls s.
 Proof. intros. unfold iterate. rewrite (fold_left_pres calls); [reflexivity | intros; apply fr_calls_run_handle]. Qed.
-#[export] Hint Rewrite fr_calls_iterate : fr.
+#[export] Hint Rewrite fr_calls_iterate : fr fr_calls.
 Lemma fr_pub_iterate s : pub (iterate s) = pub s.
 Proof. intros. unfold iterate. rewrite (fold_left_pres pub); [reflexivity | intros; apply fr_pub_run_handle]. Qed.
-#[export] Hint Rewrite fr_pub_iterate : fr.
+#[export] Hint Rewrite fr_pub_iterate : fr fr_pub.
 Lemma fr_nsid_iterate s : nsid (iterate s) = nsid s.
 Proof. intros. unfold iterate. rewrite (fold_left_pres nsid); [reflexivity | intros; apply fr_nsid_run_handle]. Qed.
-#[export] Hint Rewrite fr_nsid_iterate : fr.
+#[export] Hint Rewrite fr_nsid_iterate : fr fr_nsid.
 Lemma fr_lapsed_iterate s : lapsed (iterate s) = lapsed s.
 Proof. intros. unfold iterate. rewrite (fold_left_pres lapsed); [reflexivity | intros; apply fr_lapsed_run_handle]. Qed.
-#[export] Hint Rewrite fr_lapsed_iterate : fr.
+#[export] Hint Rewrite fr_lapsed_iterate : fr fr_lapsed.
 Lemma fr_g_maxdur_iterate s : g_maxdur (iterate s) = g_maxdur s.
 Proof. intros. unfold iterate. rewrite (fold_left_pres g_maxdur); [reflexivity | intros; apply fr_g_maxdur_run_handle]. Qed.
-#[export] Hint Rewrite fr_g_maxdur_iterate : fr.
+#[export] Hint Rewrite fr_g_maxdur_iterate : fr fr_g_maxdur.
 Lemma fr_svcs_advance s dt : svcs (advance s dt) = svcs s.
-Proof. intros. unfold advance. frame. Qed.
-#[export] Hint Rewrite fr_svcs_advance : fr.
+Proof. intros. unfold advance. frame_svcs. Qed.
+#[export] Hint Rewrite fr_svcs_advance : fr fr_svcs.
 Lemma fr_subs_advance s dt : subs (advance s dt) = subs s.
-Proof. intros. unfold advance. frame. Qed.
-#[export] Hint Rewrite fr_subs_advance : fr.
+Proof. intros. unfold advance. frame_subs. Qed.
+#[export] Hint Rewrite fr_subs_advance : fr fr_subs.
 Lemma fr_routed_advance s dt : routed (advance s dt) = routed s.
-Proof. intros. unfold advance. frame. Qed.
-#[export] Hint Rewrite fr_routed_advance : fr.
+Proof. intros. unfold advance. frame_routed. Qed.
+#[export] Hint Rewrite fr_routed_advance : fr fr_routed.
 Lemma fr_avail_advance s dt : avail (advance s dt) = avail s.
-Proof. intros. unfold advance. frame. Qed.
-#[export] Hint Rewrite fr_avail_advance : fr.
+Proof. intros. unfold advance. frame_avail. Qed.
+#[export] Hint Rewrite fr_avail_advance : fr fr_avail.
 Lemma fr_evlog_advance s dt : evlog (advance s dt) = evlog s.
-Proof. intros. unfold advance. frame. Qed.
-#[export] Hint Rewrite fr_evlog_advance : fr.
+Proof. intros. unfold advance. frame_evlog. Qed.
+#[export] Hint Rewrite fr_evlog_advance : fr fr_evlog.
 Lemma fr_rtask_advance s dt : rtask (advance s dt) = rtask s.
-Proof. intros. unfold advance. frame. Qed.
-#[export] Hint Rewrite fr_rtask_advance : fr.
+Proof. intros. unfold advance. frame_rtask. Qed.
+#[export] Hint Rewrite fr_rtask_advance : fr fr_rtask.
 Lemma fr_tasks_advance s dt : tasks (advance s dt) = tasks s.
-Proof. intros. unfold advance. frame. Qed.
-#[export] Hint Rewrite fr_tasks_advance : fr.
+Proof. intros. unfold advance. frame_tasks. Qed.
+#[export] Hint Rewrite fr_tasks_advance : fr fr_tasks.
 Lemma fr_ntasks_advance s dt : ntasks (advance s dt) = ntasks s.
-Proof. intros. unfold advance. frame. Qed.
-#[export] Hint Rewrite fr_ntasks_advance : fr.
+Proof. intros. unfold advance. frame_ntasks. Qed.
+#[export] Hint Rewrite fr_ntasks_advance : fr fr_ntasks.
 Lemma fr_calls_advance s dt : calls (advance s dt) = calls s.
-Proof. intros. unfold advance. frame. Qed.
-#[export] Hint Rewrite fr_calls_advance : fr.
+Proof. intros. unfold advance. frame_calls. Qed.
+#[export] Hint Rewrite fr_calls_advance : fr fr_calls.
 Lemma fr_reqs_advance s dt : reqs (advance s dt) = reqs s.
-Proof. intros. unfold advance. frame. Qed.
-#[export] Hint Rewrite fr_reqs_advance : fr.
+Proof. intros. unfold advance. frame_reqs. Qed.
+#[export] Hint Rewrite fr_reqs_advance : fr fr_reqs.
 Lemma fr_nreqs_advance s dt : nreqs (advance s dt) = nreqs s.
-Proof. intros. unfold advance. frame. Qed.
-#[export] Hint Rewrite fr_nreqs_advance : fr.
+Proof. intros. unfold advance. frame_nreqs. Qed.
+#[export] Hint Rewrite fr_nreqs_advance : fr fr_nreqs.
 Lemma fr_ready_advance s dt : ready (advance s dt) = ready s.
-Proof. intros. unfold advance. frame. Qed.
-#[export] Hint Rewrite fr_ready_advance : fr.
+Proof. intros. unfold advance. frame_ready. Qed.
+#[export] Hint Rewrite fr_ready_advance : fr fr_ready.
 Lemma fr_pub_advance s dt : pub (advance s dt) = pub s.
-Proof. intros. unfold advance. frame. Qed.
-#[export] Hint Rewrite fr_pub_advance : fr.
+Proof. intros. unfold advance. frame_pub. Qed.
+#[export] Hint Rewrite fr_pub_advance : fr fr_pub.
 Lemma fr_nsid_advance s dt : nsid (advance s dt) = nsid s.
-Proof. intros. unfold advance. frame. Qed.
-#[export] Hint Rewrite fr_nsid_advance : fr.
+Proof. intros. unfold advance. frame_nsid. Qed.
+#[export] Hint Rewrite fr_nsid_advance : fr fr_nsid.
 Lemma fr_lapsed_advance s dt : lapsed (advance s dt) = lapsed s.
-Proof. intros. unfold advance. frame. Qed.
-#[export] Hint Rewrite fr_lapsed_advance : fr.
+Proof. intros. unfold advance. frame_lapsed. Qed.
+#[export] Hint Rewrite fr_lapsed_advance : fr fr_lapsed.
 Lemma fr_diverged_advance s dt : diverged (advance s dt) = diverged s.
-Proof. intros. unfold advance. frame. Qed.
-#[export] Hint Rewrite fr_diverged_advance : fr.
+Proof. intros. unfold advance. frame_diverged. Qed.
+#[export] Hint Rewrite fr_diverged_advance : fr fr_diverged.
 Lemma fr_g_overdue_advance s dt : g_overdue (advance s dt) = g_overdue s.
-Proof. intros. unfold advance. frame. Qed.
-#[export] Hint Rewrite fr_g_overdue_advance : fr.
+Proof. intros. unfold advance. frame_g_overdue. Qed.
+#[export] Hint Rewrite fr_g_overdue_advance : fr fr_g_overdue.
 Lemma fr_g_inflight_advance s dt : g_inflight (advance s dt) = g_inflight s.
-Proof. intros. unfold advance. frame. Qed.
-#[export] Hint Rewrite fr_g_inflight_advance : fr.
+Proof. intros. unfold advance. frame_g_inflight. Qed.
+#[export] Hint Rewrite fr_g_inflight_advance : fr fr_g_inflight.
+Lemma fr_now_publisher s q rho : now (fst (publisher s q rho)) = now s.
+Proof. intros. unfold publisher. frame_now. Qed.
+#[export] Hint Rewrite fr_now_publisher : fr fr_now.
+Lemma fr_svcs_publisher s q rho : svcs (fst (publisher s q rho)) = svcs s.
+Proof. intros. unfold publisher. frame_svcs. Qed.
+#[export] Hint Rewrite fr_svcs_publisher : fr fr_svcs.
+Lemma fr_subs_publisher s q rho : subs (fst (publisher s q rho)) = subs s.
+Proof. intros. unfold publisher. frame_subs. Qed.
+#[export] Hint Rewrite fr_subs_publisher : fr fr_subs.
+Lemma fr_routed_publisher s q rho : routed (fst (publisher s q rho)) = routed s.
+Proof. intros. unfold publisher. frame_routed. Qed.
+#[export] Hint Rewrite fr_routed_publisher : fr fr_routed.
+Lemma fr_avail_publisher s q rho : avail (fst (publisher s q rho)) = avail s.
+Proof. intros. unfold publisher. frame_avail. Qed.
+#[export] Hint Rewrite fr_avail_publisher : fr fr_avail.
+Lemma fr_evlog_publisher s q rho : evlog (fst (publisher s q rho)) = evlog s.
+Proof. intros. unfold publisher. frame_evlog. Qed.
+#[export] Hint Rewrite fr_evlog_publisher : fr fr_evlog.
+Lemma fr_rtask_publisher s q rho : rtask (fst (publisher s q rho)) = rtask s.
+Proof. intros. unfold publisher. frame_rtask. Qed.
+#[export] Hint Rewrite fr_rtask_publisher : fr fr_rtask.
+Lemma fr_tasks_publisher s q rho : tasks (fst (publisher s q rho)) = tasks s.
+Proof. intros. unfold publisher. frame_tasks. Qed.
+#[export] Hint Rewrite fr_tasks_publisher : fr fr_tasks.
+Lemma fr_ntasks_publisher s q rho : ntasks (fst (publisher s q rho)) = ntasks s.
+Proof. intros. unfold publisher. frame_ntasks. Qed.
+#[export] Hint Rewrite fr_ntasks_publisher : fr fr_ntasks.
+Lemma fr_calls_publisher s q rho : calls (fst (publisher s q rho)) = calls s.
+Proof. intros. unfold publisher. frame_calls. Qed.
+#[export] Hint Rewrite fr_calls_publisher : fr fr_calls.
+Lemma fr_reqs_publisher s q rho : reqs (fst (publisher s q rho)) = reqs s.
+Proof. intros. unfold publisher. frame_reqs. Qed.
+#[export] Hint Rewrite fr_reqs_publisher : fr fr_reqs.
+Lemma fr_nreqs_publisher s q rho : nreqs (fst (publisher s q rho)) = nreqs s.
+Proof. intros. unfold publisher. frame_nreqs. Qed.
+#[export] Hint Rewrite fr_nreqs_publisher : fr fr_nreqs.
+Lemma fr_ready_publisher s q rho : ready (fst (publisher s q rho)) = ready s.
+Proof. intros. unfold publisher. frame_ready. Qed.
+#[export] Hint Rewrite fr_ready_publisher : fr fr_ready.
+Lemma fr_diverged_publisher s q rho : diverged (fst (publisher s q rho)) = diverged s.
+Proof. intros. unfold publisher. frame_diverged. Qed.
+#[export] Hint Rewrite fr_diverged_publisher : fr fr_diverged.
+Lemma fr_g_overdue_publisher s q rho : g_overdue (fst (publisher s q rho)) = g_overdue s.
+Proof. intros. unfold publisher. frame_g_overdue. Qed.
+#[export] Hint Rewrite fr_g_overdue_publisher : fr fr_g_overdue.
+Lemma fr_g_inflight_publisher s q rho : g_inflight (fst (publisher s q rho)) = g_inflight s.
+Proof. intros. unfold publisher. frame_g_inflight. Qed.
+#[export] Hint Rewrite fr_g_inflight_publisher : fr fr_g_inflight.
+Lemma fr_g_maxdur_publisher s q rho : g_maxdur (fst (publisher s q rho)) = g_maxdur s.
+Proof. intros. unfold publisher. frame_g_maxdur. Qed.
+#[export] Hint Rewrite fr_g_maxdur_publisher : fr fr_g_maxdur.
 Lemma fr_now_deliver s r rho : now (deliver s r rho) = now s.
-Proof. intros. unfold deliver. frame. Qed.
-#[export] Hint Rewrite fr_now_deliver : fr.
+Proof. intros. unfold deliver. frame_now. Qed.
+#[export] Hint Rewrite fr_now_deliver : fr fr_now.
 Lemma fr_svcs_deliver s r rho : svcs (deliver s r rho) = svcs s.
-Proof. intros. unfold deliver. frame. Qed.
-#[export] Hint Rewrite fr_svcs_deliver : fr.
+Proof. intros. unfold deliver. frame_svcs. Qed.
+#[export] Hint Rewrite fr_svcs_deliver : fr fr_svcs.
 Lemma fr_subs_deliver s r rho : subs (deliver s r rho) = subs s.
-Proof. intros. unfold deliver. frame. Qed.
-#[export] Hint Rewrite fr_subs_deliver : fr.
+Proof. intros. unfold deliver. frame_subs. Qed.
+#[export] Hint Rewrite fr_subs_deliver : fr fr_subs.
 Lemma fr_routed_deliver s r rho : routed (deliver s r rho) = routed s.
-Proof. intros. unfold deliver. frame. Qed.
-#[export] Hint Rewrite fr_routed_deliver : fr.
+Proof. intros. unfold deliver. frame_routed. Qed.
+#[export] Hint Rewrite fr_routed_deliver : fr fr_routed.
 Lemma fr_avail_deliver s r rho : avail (deliver s r rho) = avail s.
-Proof. intros. unfold deliver. frame. Qed.
-#[export] Hint Rewrite fr_avail_deliver : fr.
+Proof. intros. unfold deliver. frame_avail. Qed.
+#[export] Hint Rewrite fr_avail_deliver : fr fr_avail.
 Lemma fr_evlog_deliver s r rho : evlog (deliver s r rho) = evlog s.
-Proof. intros. unfold deliver. frame. Qed.
-#[export] Hint Rewrite fr_evlog_deliver : fr.
+Proof. intros. unfold deliver. frame_evlog. Qed.
+#[export] Hint Rewrite fr_evlog_deliver : fr fr_evlog.
 Lemma fr_rtask_deliver s r rho : rtask (deliver s r rho) = rtask s.
-Proof. intros. unfold deliver. frame. Qed.
-#[export] Hint Rewrite fr_rtask_deliver : fr.
+Proof. intros. unfold deliver. frame_rtask. Qed.
+#[export] Hint Rewrite fr_rtask_deliver : fr fr_rtask.
 Lemma fr_tasks_deliver s r rho : tasks (deliver s r rho) = tasks s.
-Proof. intros. unfold deliver. frame. Qed.
-#[export] Hint Rewrite fr_tasks_deliver : fr.
+Proof. intros. unfold deliver. frame_tasks. Qed.
+#[export] Hint Rewrite fr_tasks_deliver : fr fr_tasks.
 Lemma fr_ntasks_deliver s r rho : ntasks (deliver s r rho) = ntasks s.
-Proof. intros. unfold deliver. frame. Qed.
-#[export] Hint Rewrite fr_ntasks_deliver : fr.
+Proof. intros. unfold deliver. frame_ntasks. Qed.
+#[export] Hint Rewrite fr_ntasks_deliver : fr fr_ntasks.
 Lemma fr_calls_deliver s r rho : calls (deliver s r rho) = calls s.
-Proof. intros. unfold deliver. frame. Qed.
-#[export] Hint Rewrite fr_calls_deliver : fr.
+Proof. intros. unfold deliver. frame_calls. Qed.
+#[export] Hint Rewrite fr_calls_deliver : fr fr_calls.
 Lemma fr_nreqs_deliver s r rho : nreqs (deliver s r rho) = nreqs s.
-Proof. intros. unfold deliver. frame. Qed.
-#[export] Hint Rewrite fr_nreqs_deliver : fr.
+Proof. intros. unfold deliver. frame_nreqs. Qed.
+#[export] Hint Rewrite fr_nreqs_deliver : fr fr_nreqs.
 Lemma fr_diverged_deliver s r rho : diverged (deliver s r rho) = diverged s.
-Proof. intros. unfold deliver. frame. Qed.
-#[export] Hint Rewrite fr_diverged_deliver : fr.
+Proof. intros. unfold deliver. frame_diverged. Qed.
+#[export] Hint Rewrite fr_diverged_deliver : fr fr_diverged.
 Lemma fr_g_overdue_deliver s r rho : g_overdue (deliver s r rho) = g_overdue s.
-Proof. intros. unfold deliver. frame. Qed.
-#[export] Hint Rewrite fr_g_overdue_deliver : fr.
+Proof. intros. unfold deliver. frame_g_overdue. Qed.
+#[export] Hint Rewrite fr_g_overdue_deliver : fr fr_g_overdue.
 Lemma fr_g_inflight_deliver s r rho : g_inflight (deliver s r rho) = g_inflight s.
-Proof. intros. unfold deliver. frame. Qed.
-#[export] Hint Rewrite fr_g_inflight_deliver : fr.
+Proof. intros. unfold deliver. frame_g_inflight. Qed.
+#[export] Hint Rewrite fr_g_inflight_deliver : fr fr_g_inflight.
 Lemma fr_g_maxdur_deliver s r rho : g_maxdur (deliver s r rho) = g_maxdur s.
-Proof. intros. unfold deliver. frame. Qed.
-#[export] Hint Rewrite fr_g_maxdur_deliver : fr.
+Proof. intros. unfold deliver. frame_g_maxdur. Qed.
+#[export] Hint Rewrite fr_g_maxdur_deliver : fr fr_g_maxdur.
 Lemma fr_now_call s kd : now (call s kd) = now s.
-Proof. intros. unfold call. frame. Qed.
-#[export] Hint Rewrite fr_now_call : fr.
+Proof. intros. unfold call. frame_now. Qed.
+#[export] Hint Rewrite fr_now_call : fr fr_now.
 Lemma fr_svcs_call s kd : svcs (call s kd) = svcs s.
-Proof. intros. unfold call. frame. Qed.
-#[export] Hint Rewrite fr_svcs_call : fr.
+Proof. intros. unfold call. frame_svcs. Qed.
+#[export] Hint Rewrite fr_svcs_call : fr fr_svcs.
 Lemma fr_subs_call s kd : subs (call s kd) = subs s.
-Proof. intros. unfold call. frame. Qed.
-#[export] Hint Rewrite fr_subs_call : fr.
+Proof. intros. unfold call. frame_subs. Qed.
+#[export] Hint Rewrite fr_subs_call : fr fr_subs.
 Lemma fr_routed_call s kd : routed (call s kd) = routed s.
-Proof. intros. unfold call. frame. Qed.
-#[export] Hint Rewrite fr_routed_call : fr.
+Proof. intros. unfold call. frame_routed. Qed.
+#[export] Hint Rewrite fr_routed_call : fr fr_routed.
 Lemma fr_avail_call s kd : avail (call s kd) = avail s.
-Proof. intros. unfold call. frame. Qed.
-#[export] Hint Rewrite fr_avail_call : fr.
+Proof. intros. unfold call. frame_avail. Qed.
+#[export] Hint Rewrite fr_avail_call : fr fr_avail.
 Lemma fr_evlog_call s kd : evlog (call s kd) = evlog s.
-Proof. intros. unfold call. frame. Qed.
-#[export] Hint Rewrite fr_evlog_call : fr.
+Proof. intros. unfold call. frame_evlog. Qed.
+#[export] Hint Rewrite fr_evlog_call : fr fr_evlog.
 Lemma fr_rtask_call s kd : rtask (call s kd) = rtask s.
-Proof. intros. unfold call. frame. Qed.
-#[export] Hint Rewrite fr_rtask_call : fr.
+Proof. intros. unfold call. frame_rtask. Qed.
+#[export] Hint Rewrite fr_rtask_call : fr fr_rtask.
 Lemma fr_reqs_call s kd : reqs (call s kd) = reqs s.
-Proof. intros. unfold call. frame. Qed.
-#[export] Hint Rewrite fr_reqs_call : fr.
+Proof. intros. unfold call. frame_reqs. Qed.
+#[export] Hint Rewrite fr_reqs_call : fr fr_reqs.
 Lemma fr_nreqs_call s kd : nreqs (call s kd) = nreqs s.
-Proof. intros. unfold call. frame. Qed.
-#[export] Hint Rewrite fr_nreqs_call : fr.
+Proof. intros. unfold call. frame_nreqs. Qed.
+#[export] Hint Rewrite fr_nreqs_call : fr fr_nreqs.
 Lemma fr_pub_call s kd : pub (call s kd) = pub s.
-Proof. intros. unfold call. frame. Qed.
-#[export] Hint Rewrite fr_pub_call : fr.
+Proof. intros. unfold call. frame_pub. Qed.
+#[export] Hint Rewrite fr_pub_call : fr fr_pub.
 Lemma fr_nsid_call s kd : nsid (call s kd) = nsid s.
-Proof. intros. unfold call. frame. Qed.
-#[export] Hint Rewrite fr_nsid_call : fr.
+Proof. intros. unfold call. frame_nsid. Qed.
+#[export] Hint Rewrite fr_nsid_call : fr fr_nsid.
 Lemma fr_lapsed_call s kd : lapsed (call s kd) = lapsed s.
-Proof. intros. unfold call. frame. Qed.
-#[export] Hint Rewrite fr_lapsed_call : fr.
+Proof. intros. unfold call. frame_lapsed. Qed.
+#[export] Hint Rewrite fr_lapsed_call : fr fr_lapsed.
 Lemma fr_diverged_call s kd : diverged (call s kd) = diverged s.
-Proof. intros. unfold call. frame. Qed.
-#[export] Hint Rewrite fr_diverged_call : fr.
+Proof. intros. unfold call. frame_diverged. Qed.
+#[export] Hint Rewrite fr_diverged_call : fr fr_diverged.
 Lemma fr_g_overdue_call s kd : g_overdue (call s kd) = g_overdue s.
-Proof. intros. unfold call. frame. Qed.
-#[export] Hint Rewrite fr_g_overdue_call : fr.
+Proof. intros. unfold call. frame_g_overdue. Qed.
+#[export] Hint Rewrite fr_g_overdue_call : fr fr_g_overdue.
 Lemma fr_g_inflight_call s kd : g_inflight (call s kd) = g_inflight s.
-Proof. intros. unfold call. frame. Qed.
-#[export] Hint Rewrite fr_g_inflight_call : fr.
+Proof. intros. unfold call. frame_g_inflight. Qed.
+#[export] Hint Rewrite fr_g_inflight_call : fr fr_g_inflight.
 Lemma fr_g_maxdur_call s kd : g_maxdur (call s kd) = g_maxdur s.
-Proof. intros. unfold call. frame. Qed.
-#[export] Hint Rewrite fr_g_maxdur_call : fr.
+Proof. intros. unfold call. frame_g_maxdur. Qed.
+#[export] Hint Rewrite fr_g_maxdur_call : fr fr_g_maxdur.
 Lemma fr_svcs_step s a : svcs (step s a) = svcs s.
-Proof. intros. unfold step. frame. Qed.
-#[export] Hint Rewrite fr_svcs_step : fr.
-Lemma fr_now_after_pass_loop t o : now (after_pass_loop t o) = now (ost o).
-Proof. intros. unfold after_pass_loop. destruct o; frame. Qed.
-#[export] Hint Rewrite fr_now_after_pass_loop : fr.
-Lemma fr_svcs_after_pass_loop t o : svcs (after_pass_loop t o) = svcs (ost o).
-Proof. intros. unfold after_pass_loop. destruct o; frame. Qed.
-#[export] Hint Rewrite fr_svcs_after_pass_loop : fr.
-Lemma fr_routed_after_pass_loop t o : routed (after_pass_loop t o) = routed (ost o).
-Proof. intros. unfold after_pass_loop. destruct o; frame. Qed.
-#[export] Hint Rewrite fr_routed_after_pass_loop : fr.
-Lemma fr_avail_after_pass_loop t o : avail (after_pass_loop t o) = avail (ost o).
-Proof. intros. unfold after_pass_loop. destruct o; frame. Qed.
-#[export] Hint Rewrite fr_avail_after_pass_loop : fr.
-Lemma fr_evlog_after_pass_loop t o : evlog (after_pass_loop t o) = evlog (ost o).
-Proof. intros. unfold after_pass_loop. destruct o; frame. Qed.
-#[export] Hint Rewrite fr_evlog_after_pass_loop : fr.
-Lemma fr_rtask_after_pass_loop t o : rtask (after_pass_loop t o) = rtask (ost o).
-Proof. intros. unfold after_pass_loop. destruct o; frame. Qed.
-#[export] Hint Rewrite fr_rtask_after_pass_loop : fr.
-Lemma fr_ntasks_after_pass_loop t o : ntasks (after_pass_loop t o) = ntasks (ost o).
-Proof. intros. unfold after_pass_loop. destruct o; frame. Qed.
-#[export] Hint Rewrite fr_ntasks_after_pass_loop : fr.
-Lemma fr_calls_after_pass_loop t o : calls (after_pass_loop t o) = calls (ost o).
-Proof. intros. unfold after_pass_loop. destruct o; frame. Qed.
-#[export] Hint Rewrite fr_calls_after_pass_loop : fr.
-Lemma fr_pub_after_pass_loop t o : pub (after_pass_loop t o) = pub (ost o).
-Proof. intros. unfold after_pass_loop. destruct o; frame. Qed.
-#[export] Hint Rewrite fr_pub_after_pass_loop : fr.
-Lemma fr_nsid_after_pass_loop t o : nsid (after_pass_loop t o) = nsid (ost o).
-Proof. intros. unfold after_pass_loop. destruct o; frame. Qed.
-#[export] Hint Rewrite fr_nsid_after_pass_loop : fr.
-Lemma fr_lapsed_after_pass_loop t o : lapsed (after_pass_loop t o) = lapsed (ost o).
-Proof. intros. unfold after_pass_loop. destruct o; frame. Qed.
-#[export] Hint Rewrite fr_lapsed_after_pass_loop : fr.
-Lemma fr_g_inflight_after_pass_loop t o : g_inflight (after_pass_loop t o) = g_inflight (ost o).
-Proof. intros. unfold after_pass_loop. destruct o; frame. Qed.
-#[export] Hint Rewrite fr_g_inflight_after_pass_loop : fr.
-Lemma fr_g_maxdur_after_pass_loop t o : g_maxdur (after_pass_loop t o) = g_maxdur (ost o).
-Proof. intros. unfold after_pass_loop. destruct o; frame. Qed.
-#[export] Hint Rewrite fr_g_maxdur_after_pass_loop : fr.
-Lemma fr_now_after_pass_sub t auto now0 o : now (after_pass_sub t auto now0 o) = now (ost o).
-Proof. intros. unfold after_pass_sub. destruct o; frame. Qed.
-#[export] Hint Rewrite fr_now_after_pass_sub : fr.
-Lemma fr_svcs_after_pass_sub t auto now0 o : svcs (after_pass_sub t auto now0 o) = svcs (ost o).
-Proof. intros. unfold after_pass_sub. destruct o; frame. Qed.
-#[export] Hint Rewrite fr_svcs_after_pass_sub : fr.
-Lemma fr_routed_after_pass_sub t auto now0 o : routed (after_pass_sub t auto now0 o) = routed (ost o).
-Proof. intros. unfold after_pass_sub. destruct o; frame. Qed.
-#[export] Hint Rewrite fr_routed_after_pass_sub : fr.
-Lemma fr_avail_after_pass_sub t auto now0 o : avail (after_pass_sub t auto now0 o) = avail (ost o).
-Proof. intros. unfold after_pass_sub. destruct o; frame. Qed.
-#[export] Hint Rewrite fr_avail_after_pass_sub : fr.
-Lemma fr_evlog_after_pass_sub t auto now0 o : evlog (after_pass_sub t auto now0 o) = evlog (ost o).
-Proof. intros. unfold after_pass_sub. destruct o; frame. Qed.
-#[export] Hint Rewrite fr_evlog_after_pass_sub : fr.
-Lemma fr_calls_after_pass_sub t auto now0 o : calls (after_pass_sub t auto now0 o) = calls (ost o).
-Proof. intros. unfold after_pass_sub. destruct o; frame. Qed.
-#[export] Hint Rewrite fr_calls_after_pass_sub : fr.
-Lemma fr_nreqs_after_pass_sub t auto now0 o : nreqs (after_pass_sub t auto now0 o) = nreqs (ost o).
-Proof. intros. unfold after_pass_sub. destruct o; frame. Qed.
-#[export] Hint Rewrite fr_nreqs_after_pass_sub : fr.
-Lemma fr_pub_after_pass_sub t auto now0 o : pub (after_pass_sub t auto now0 o) = pub (ost o).
-Proof. intros. unfold after_pass_sub. destruct o; frame. Qed.
-#[export] Hint Rewrite fr_pub_after_pass_sub : fr.
-Lemma fr_nsid_after_pass_sub t auto now0 o : nsid (after_pass_sub t auto now0 o) = nsid (ost o).
-Proof. intros. unfold after_pass_sub. destruct o; frame. Qed.
-#[export] Hint Rewrite fr_nsid_after_pass_sub : fr.
-Lemma fr_lapsed_after_pass_sub t auto now0 o : lapsed (after_pass_sub t auto now0 o) = lapsed (ost o).
-Proof. intros. unfold after_pass_sub. destruct o; frame. Qed.
-#[export] Hint Rewrite fr_lapsed_after_pass_sub : fr.
-Lemma fr_diverged_after_pass_sub t auto now0 o : diverged (after_pass_sub t auto now0 o) = diverged (ost o).
-Proof. intros. unfold after_pass_sub. destruct o; frame. Qed.
-#[export] Hint Rewrite fr_diverged_after_pass_sub : fr.
-Lemma fr_g_overdue_after_pass_sub t auto now0 o : g_overdue (after_pass_sub t auto now0 o) = g_overdue (ost o).
-Proof. intros. unfold after_pass_sub. destruct o; frame. Qed.
-#[export] Hint Rewrite fr_g_overdue_after_pass_sub : fr.
-Lemma fr_g_maxdur_after_pass_sub t auto now0 o : g_maxdur (after_pass_sub t auto now0 o) = g_maxdur (ost o).
-Proof. intros. unfold after_pass_sub. destruct o; frame. Qed.
-#[export] Hint Rewrite fr_g_maxdur_after_pass_sub : fr.
+Proof. intros. unfold step. frame_svcs. Qed.
+#[export] Hint Rewrite fr_svcs_step : fr fr_svcs.
